@@ -63,6 +63,36 @@ def patched(text, pairs, what):
     return text
 
 
+def from_impl_fn(repo, rel, source_pat, target):
+    """`impl From<..X> for T` blocks look alike to the anchor matcher once generics are stripped: pick by source type."""
+    for n in range(64):
+        a = "impl:From<X> for %s#%d" % (target, n)
+        try:
+            reg = repo.at(rel, a)
+        except Exception:
+            break
+        if re.search(r"impl\s+From<%s>\s+for\s+%s\b" % (source_pat, target), reg.text):
+            return a + "/fn:from"
+    raise Undecided("impl From<%s> for %s not found in %s (anchor lost)" % (source_pat, target, rel))
+
+
+def impl_with_fn(repo, rel, impl, fn):
+    """Anchor of the `impl <impl>` block (several share the header) that contains `fn`."""
+    from vlib.extract import AnchorLost
+    for i in range(16):
+        a = "impl:%s#%d" % (impl, i)
+        try:
+            repo.at(rel, a)
+        except AnchorLost:
+            break
+        try:
+            repo.at(rel, a + "/fn:" + fn)
+            return a + "/fn:" + fn
+        except AnchorLost:
+            continue
+    raise AnchorLost("%s: no `impl %s` block with fn %s" % (rel, impl, fn))
+
+
 # ----------------------------------------------------------------------------------------------------------------------
 # prelude
 # ----------------------------------------------------------------------------------------------------------------------
@@ -73,8 +103,8 @@ def w_prelude():
          "#[derive(Debug, Clone, Copy, PartialEq, Eq)]\npub struct PublicKey { pub compressed: bool, pub inner: secp256k1::PublicKey }"),
         ("pub struct ScriptBuf { pub opaque: u64 }", "#[derive(PartialEq, Eq)]\npub struct ScriptBuf { pub opaque: u64 }"),
         ("pub enum Error { BareDescriptorAddr, TrNoScriptCode, MissingSig(PublicKey), AddressError(u8), Other(u8) }",
-         "#[derive(Debug)]\npub struct ScriptContextError { pub opaque: u8 }\n"
-         "pub enum Error { BareDescriptorAddr, TrNoScriptCode, MissingSig(PublicKey), AddressError(u8), ContextError(ScriptContextError), Other(u8) }"),
+         "pub enum Error { BareDescriptorAddr, TrNoScriptCode, MissingSig(PublicKey), AddressError(u8), ContextError(ScriptContextError), Other(u8) }\n"
+         "#[derive(Debug)]\npub struct ScriptContextError { pub opaque: u8 }"),
         ("pub mod bitcoin {\n", "pub mod bitcoin {\n    pub use crate::{PublicKey, Address, Network, ScriptBuf, TxOut, Transaction, Witness, XOnlyPublicKey};\n"
                                 "    pub use crate::{secp256k1, taproot, bip32, psbt, hashes};\n"),
         ("    pub mod key {\n", "    pub mod key {\n        pub use crate::{XOnlyPublicKey, FromSliceError};\n"),
@@ -108,6 +138,7 @@ pub mod secp256k1 {
 }
 pub use secp256k1::{Secp256k1, VerifyOnly, XOnlyPublicKey};
 pub struct FromSliceError { pub opaque: u8 }
+#[derive(PartialEq, Eq)]
 pub struct Amount { pub sat: u64 }
 #[derive(PartialEq, Eq)]
 pub struct Txid { pub opaque: u64 }
@@ -150,6 +181,7 @@ pub use bip32::{KeySource, Xpub};
 impl vstd::std_specs::cmp::PartialEqSpecImpl for PublicKey { open spec fn obeys_eq_spec() -> bool { true } open spec fn eq_spec(&self, o: &PublicKey) -> bool { *self == *o } }
 impl vstd::std_specs::cmp::PartialEqSpecImpl for ScriptBuf { open spec fn obeys_eq_spec() -> bool { true } open spec fn eq_spec(&self, o: &ScriptBuf) -> bool { *self == *o } }
 impl vstd::std_specs::cmp::PartialEqSpecImpl for Txid { open spec fn obeys_eq_spec() -> bool { true } open spec fn eq_spec(&self, o: &Txid) -> bool { *self == *o } }
+impl vstd::std_specs::cmp::PartialEqSpecImpl for TapLeafHash { open spec fn obeys_eq_spec() -> bool { true } open spec fn eq_spec(&self, o: &TapLeafHash) -> bool { *self == *o } }
 impl vstd::std_specs::cmp::PartialEqSpecImpl for LeafVersion { open spec fn obeys_eq_spec() -> bool { true } open spec fn eq_spec(&self, o: &LeafVersion) -> bool { *self == *o } }
 impl Clone for ScriptBuf {
     #[verifier::external_body]
@@ -255,6 +287,17 @@ impl Transaction {
 }
 """
 
+Q_ERR = r"""
+// R17: `X?` where X: Result<T, crate::Error> inside a function returning Result<_, InputError> is `q_err(X)?`: the documented
+// desugaring of `?` (`Err(e) => return Err(From::from(e))`), verified here against the extracted `From<Error> for InputError`
+// (this Verus leaves the converted error of a `?` unconstrained)
+fn q_err<T>(r: Result<T, Error>) -> (o: Result<T, InputError>)
+    ensures o is Ok <==> r is Ok, r is Ok ==> o->Ok_0 == r->Ok_0, r is Err ==> o->Err_0 == InputError::MiniscriptError(r->Err_0),
+{
+    match r { Ok(v) => Ok(v), Err(e) => Err(InputError::from(e)) }
+}
+"""
+
 INPUT_ERR_GLUE = r"""
 impl vstd::std_specs::convert::FromSpecImpl<Error> for InputError {
     open spec fn obeys_from_spec() -> bool { true }
@@ -302,6 +345,13 @@ def find_closure(ensures_text, tag, body_prefix="let pk = *kv.0;"):
                lambda m: ".find(|kv: &(&bitcoin::PublicKey, &bitcoin::ecdsa::Signature)|%s {\n            %s" % (contract, body_prefix), count=1)
 
 
+@rule("R17-question-mark-conversion")
+def q_conv(text):
+    new, n1 = re.subn(r"Ok\((Descriptor::new_\w+\((?:[^()]|\([^()]*\))*\))\?\)", r"Ok(q_err(\1)?)", text)
+    new, n2 = re.subn(r"(Miniscript::<[^>]*>::decode_consensus\(\s*[&\w]+,?\s*\))\?", r"q_err(\1)?", new)
+    return new if n1 and n2 else None
+
+
 @rule("R8-key-map-loops")
 def key_map_loops(text):
     """The two nested `for` loops that collect hash160(key) -> key over the bip32_derivation keys of all inputs become index
@@ -329,6 +379,12 @@ impl<K, V> BTreeMap<K, V> {
     pub fn insert(&mut self, k: K, v: V) -> (r: Option<V>) ensures final(self)@ == old(self)@.insert(k, v) { unimplemented!() }
     #[verifier::external_body]
     pub fn keys<'a>(&'a self) -> (r: MapKeys<'a, K, V>) ensures r.m == self { unimplemented!() }
+    // std: a mutable reference to the value stored under the key; writing through it changes that entry only
+    #[verifier::external_body]
+    pub fn get_mut(&mut self, k: &K) -> (r: Option<&mut V>)
+        ensures r is Some <==> old(self)@.contains_key(*k), r is None ==> final(self)@ == old(self)@,
+                r matches Some(p) ==> *p == old(self)@[*k] && final(self)@ == old(self)@.insert(*k, *final(p)),
+    { unimplemented!() }
     // std: "Moves all elements from other into self, leaving other empty. If a key from other is already present in self, the
     // respective value from self will be overwritten with the respective value from other."
     #[verifier::external_body]
@@ -343,6 +399,14 @@ pub fn btree_keys_as_vec<'a, K, V>(keys: MapKeys<'a, K, V>) -> (r: Vec<&'a K>)
             forall|k: K| keys.m@.contains_key(k) ==> exists|j: int| 0 <= j < r@.len() && *#[trigger] r@[j] == k,
 { unimplemented!() }
 """
+
+
+def item_pub(vf, rel, anchor, rewrites=()):
+    """vf.item keeping `pub` (the item is named by `pub` spec glue / trait impls)."""
+    reg = vf.repo.at(rel, anchor)
+    text = vf._apply(strip_docs(reg.text), list(rewrites), anchor).strip("\n")
+    vf._emit(text, dict(origin="repo", file=rel, lines=reg.lines(), anchor=anchor))
+    return reg
 
 
 def emit_dep_structs(vf, dep, ver):
@@ -401,6 +465,7 @@ def get_descriptor_contract():
     nested_wsh = "%s && %s is Some && %s->Some_0.spec_is_p2wsh()" % (sh, RS, RS)
     nested_wpkh = "%s && %s is Some && !%s->Some_0.spec_is_p2wsh() && %s->Some_0.spec_is_p2wpkh()" % (sh, RS, RS, RS)
     plain_sh = "%s && %s is Some && !%s->Some_0.spec_is_p2wsh() && !%s->Some_0.spec_is_p2wpkh()" % (sh, RS, RS, RS)
+    ACC = "(r is Ok || r->Err_0 is MiniscriptError)"
     return Contract(requires=PRE_A, ensures=[
         # the one statement every branch must meet: the inferred descriptor pays to the output being spent
         C("inferred_descriptor_has_the_spent_script_pubkey", "r is Ok ==> %s && desc_spk(%s) == %s" % (HAS, D, SPK)),
@@ -434,14 +499,1031 @@ def get_descriptor_contract():
         # anything else: the scriptPubKey itself is the (bare) script
         C("bare.is_bare_of_the_script_pubkey", "r is Ok && !%s.spec_is_p2pk() && !%s.spec_is_p2pkh() && !%s.spec_is_p2wpkh() && !%s.spec_is_p2wsh() && !%s ==> (%s matches Descriptor::Bare(b) && b.ms.enc() == %s)" % (SPK, SPK, SPK, SPK, sh, D, SPK)),
         C("p2pk.is_bare", "r is Ok && %s.spec_is_p2pk() ==> %s is Bare" % (SPK, D)),
+        # completeness: when the hashes match, the only admissible refusals are those of the script parser / the context checks
+        C("p2pk.refused_only_for_an_unparsable_key", "%s && %s.spec_is_p2pk() ==> r is Ok || r->Err_0 is KeyErr" % (HAS, SPK)),
+        C("p2pkh.accepted_when_a_signing_key_hashes_to_spk", "%s && %s.spec_is_p2pkh() && (exists|k: PublicKey| #[trigger] %s.contains_key(k) && P2PKH(k) == %s) ==> %s" % (HAS, SPK, PS_, SPK, ACC)),
+        C("p2wpkh.accepted_when_a_compressed_signing_key_hashes_to_spk", "%s && %s.spec_is_p2wpkh() && (exists|k: PublicKey| #[trigger] %s.contains_key(k) && k.compressed && P2WPKH(k) == %s) ==> %s" % (HAS, SPK, PS_, SPK, ACC)),
+        C("p2wsh.accepted_when_the_witness_script_hashes_to_the_program", "%s && %s.spec_is_p2wsh() && %s is None && %s is Some && P2WSH(%s->Some_0) == %s ==> %s" % (HAS, SPK, RS, WS, WS, SPK, ACC)),
+        C("sh_wsh.accepted_when_both_hashes_match", "%s && %s && P2SH(%s->Some_0) == %s && %s is Some && P2WSH(%s->Some_0) == %s->Some_0 ==> %s" % (HAS, nested_wsh, RS, SPK, WS, WS, RS, ACC)),
+        C("sh_wpkh.accepted_when_a_compressed_signing_key_hashes_to_the_redeem_script", "%s && %s && P2SH(%s->Some_0) == %s && (exists|k: PublicKey| #[trigger] %s.contains_key(k) && k.compressed && P2WPKH(k) == %s->Some_0) ==> %s" % (HAS, nested_wpkh, RS, SPK, PS_, RS, ACC)),
+        C("sh_ms.accepted_when_the_redeem_script_hashes_to_spk", "%s && %s && P2SH(%s->Some_0) == %s && %s is None ==> %s" % (HAS, plain_sh, RS, SPK, WS, ACC)),
+        C("bare.accepted_without_stray_scripts", "%s && !%s.spec_is_p2pk() && !%s.spec_is_p2pkh() && !%s.spec_is_p2wpkh() && !%s.spec_is_p2wsh() && !%s && !%s.spec_is_p2tr() && %s is None && %s is None ==> %s" % (HAS, SPK, SPK, SPK, SPK, sh, SPK, WS, RS, ACC)),
     ])
+
+
+
+# ----------------------------------------------------------------------------------------------------------------------
+# part B: prelude
+# ----------------------------------------------------------------------------------------------------------------------
+KEYS_B = r"""
+// ---- definite descriptor keys: which public key / origin a key stands for is unit c16_keys' subject; here uninterpreted ----
+pub struct DefiniteDescriptorKey { pub opaque: u64 }
+pub struct Infallible { pub never: u8 }                     // core::convert::Infallible (never constructed)
+pub mod descriptor { pub use crate::NonDefiniteKeyError; }
+pub struct NonDefiniteKeyError { pub opaque: u8 }
+impl DefiniteDescriptorKey {
+    pub uninterp spec fn spec_derive(&self) -> PublicKey;                      // c16_keys: the_public_key(self.0)
+    pub uninterp spec fn spec_fingerprint(&self) -> bip32::Fingerprint;        // c16_keys: master_fingerprint
+    pub uninterp spec fn spec_full_path(&self) -> bip32::DerivationPath;       // c16_keys: origin path ++ key path
+    #[verifier::external_body]
+    pub fn derive_public_key<C: secp256k1::Verification>(&self, secp: &Secp256k1<C>) -> (r: PublicKey) ensures r == self.spec_derive() { unimplemented!() }
+    #[verifier::external_body]
+    pub fn master_fingerprint(&self) -> (r: bip32::Fingerprint) ensures r == self.spec_fingerprint() { unimplemented!() }
+    // a definite key is never a multipath key (c16_keys: DefiniteDescriptorKey::new.ok_only_if_definite, full_derivation_path.none_iff_multipath)
+    #[verifier::external_body]
+    pub fn full_derivation_path(&self) -> (r: Option<bip32::DerivationPath>) ensures r == Some(self.spec_full_path()) { unimplemented!() }
+    #[verifier::external_body]
+    pub fn full_derivation_paths(&self) -> (r: Vec<bip32::DerivationPath>) ensures r@ == seq![self.spec_full_path()] { unimplemented!() }
+}
+impl MiniscriptKey for DefiniteDescriptorKey {}
+impl ToPublicKey for DefiniteDescriptorKey {
+    open spec fn spec_pk(&self) -> PublicKey { self.spec_derive() }
+    #[verifier::external_body]
+    fn to_public_key(&self) -> (r: PublicKey) { unimplemented!() }
+}
+pub open spec fn origin_of(k: DefiniteDescriptorKey) -> bip32::KeySource { (k.spec_fingerprint(), k.spec_full_path()) }
+pub enum TranslateErr<E> { TranslatorErr(E), OuterError(Error) }
+impl<E> TranslateErr<E> {
+    #[verifier::external_body]
+    pub fn into_outer_err(self) -> Error { unimplemented!() }
+}
+"""
+
+TRANSLATE = r"""
+// ---- the derived descriptor: every key replaced by the public key it stands for (C20: translate_pk rebuilds the same structure) ----
+impl<Ctx: ScriptContext> Miniscript<DefiniteDescriptorKey, Ctx> {
+    uninterp spec fn spec_derived(&self) -> Miniscript<PublicKey, Ctx>;
+    uninterp spec fn spec_keys(&self) -> Seq<DefiniteDescriptorKey>;
+}
+impl Tr<DefiniteDescriptorKey> {
+    uninterp spec fn spec_derived(&self) -> Tr<PublicKey>;
+    uninterp spec fn spec_keys(&self) -> Seq<DefiniteDescriptorKey>;
+}
+spec fn derived_wsh(w: Wsh<DefiniteDescriptorKey>) -> Wsh<PublicKey> { Wsh { ms: w.ms.spec_derived() } }
+spec fn derived_wpkh(w: Wpkh<DefiniteDescriptorKey>) -> Wpkh<PublicKey> { Wpkh { pk: w.pk.spec_derive() } }
+spec fn derived_desc(d: Descriptor<DefiniteDescriptorKey>) -> Descriptor<PublicKey> {
+    match d {
+        Descriptor::Bare(b) => Descriptor::Bare(Bare { ms: b.ms.spec_derived() }),
+        Descriptor::Pkh(p) => Descriptor::Pkh(Pkh { pk: p.pk.spec_derive() }),
+        Descriptor::Wpkh(w) => Descriptor::Wpkh(derived_wpkh(w)),
+        Descriptor::Wsh(w) => Descriptor::Wsh(derived_wsh(w)),
+        Descriptor::Sh(s) => Descriptor::Sh(Sh { inner: match s.inner {
+            ShInner::Wsh(w) => ShInner::Wsh(derived_wsh(w)), ShInner::Wpkh(w) => ShInner::Wpkh(derived_wpkh(w)), ShInner::Ms(ms) => ShInner::Ms(ms.spec_derived()) } }),
+        Descriptor::Tr(t) => Descriptor::Tr(t.spec_derived()),
+    }
+}
+// the keys of a descriptor, in the order translate_pk visits them
+spec fn desc_keys(d: Descriptor<DefiniteDescriptorKey>) -> Seq<DefiniteDescriptorKey> {
+    match d {
+        Descriptor::Bare(b) => b.ms.spec_keys(),
+        Descriptor::Pkh(p) => seq![p.pk],
+        Descriptor::Wpkh(w) => seq![w.pk],
+        Descriptor::Wsh(w) => w.ms.spec_keys(),
+        Descriptor::Sh(s) => match s.inner { ShInner::Wsh(w) => w.ms.spec_keys(), ShInner::Wpkh(w) => seq![w.pk], ShInner::Ms(ms) => ms.spec_keys() },
+        Descriptor::Tr(t) => t.spec_keys(),
+    }
+}
+// what KeySourceLookUp has recorded after `pk` ran on each key in turn (the contract of KeySourceLookUp::pk, verified below, folded)
+spec fn record_all(m: Map<secp256k1::PublicKey, bip32::KeySource>, keys: Seq<DefiniteDescriptorKey>) -> Map<secp256k1::PublicKey, bip32::KeySource>
+    decreases keys.len()
+{
+    if keys.len() == 0 { m } else { record_all(m, keys.drop_last()).insert(keys.last().spec_derive().inner, origin_of(keys.last())) }
+}
+impl Descriptor<DefiniteDescriptorKey> {
+    // Descriptor::translate_pk at T = KeySourceLookUp (the only translator this file uses)
+    #[verifier::external_body]
+    fn translate_pk(&self, t: &mut KeySourceLookUp) -> (r: Result<Descriptor<PublicKey>, TranslateErr<Infallible>>)
+        ensures r is Ok, r->Ok_0 == derived_desc(*self), desc_keys_wf(r->Ok_0),
+                final(t).0@ == record_all(old(t).0@, desc_keys(*self)),
+    { unimplemented!() }
+}
+
+// ---- oracle B: BIP174 PSBT_{IN,OUT}_BIP32_DERIVATION = {public key} -> {master fingerprint, derivation path} ------------------
+spec fn derives_to(keys: Seq<DefiniteDescriptorKey>, j: int, pk: secp256k1::PublicKey) -> bool { 0 <= j < keys.len() && keys[j].spec_derive().inner == pk }
+spec fn every_key_recorded(m: Map<secp256k1::PublicKey, bip32::KeySource>, keys: Seq<DefiniteDescriptorKey>) -> bool {
+    forall|j: int| 0 <= j < keys.len() ==> m.contains_key((#[trigger] keys[j]).spec_derive().inner)
+}
+spec fn origins_recorded(m: Map<secp256k1::PublicKey, bip32::KeySource>, keys: Seq<DefiniteDescriptorKey>) -> bool {
+    forall|pk: secp256k1::PublicKey| (exists|j: int| derives_to(keys, j, pk)) ==> #[trigger] m.contains_key(pk) && exists|j: int| derives_to(keys, j, pk) && m[pk] == origin_of(keys[j])
+}
+spec fn others_kept(old_m: Map<secp256k1::PublicKey, bip32::KeySource>, m: Map<secp256k1::PublicKey, bip32::KeySource>, keys: Seq<DefiniteDescriptorKey>) -> bool {
+    forall|pk: secp256k1::PublicKey| !(exists|j: int| derives_to(keys, j, pk)) ==> (#[trigger] m.contains_key(pk) <==> old_m.contains_key(pk)) && (old_m.contains_key(pk) ==> m[pk] == old_m[pk])
+}
+proof fn lemma_record_all(m: Map<secp256k1::PublicKey, bip32::KeySource>, keys: Seq<DefiniteDescriptorKey>)
+    ensures every_key_recorded(record_all(m, keys), keys), origins_recorded(record_all(m, keys), keys), others_kept(m, record_all(m, keys), keys),
+    decreases keys.len()
+{
+    if keys.len() > 0 {
+        let pre = keys.drop_last();
+        let k = keys.last();
+        lemma_record_all(m, pre);
+        let r0 = record_all(m, pre);
+        let r = record_all(m, keys);
+        assert forall|j: int| 0 <= j < keys.len() implies r.contains_key((#[trigger] keys[j]).spec_derive().inner) by {
+            if j < pre.len() { assert(pre[j] == keys[j]); }
+        }
+        assert forall|pk: secp256k1::PublicKey| (exists|j: int| derives_to(keys, j, pk)) implies #[trigger] r.contains_key(pk) && exists|j: int| derives_to(keys, j, pk) && r[pk] == origin_of(keys[j]) by {
+            if k.spec_derive().inner == pk {
+                assert(derives_to(keys, keys.len() - 1, pk));
+            } else {
+                let j = choose|j: int| derives_to(keys, j, pk);
+                assert(derives_to(pre, j, pk));
+                let j2 = choose|j2: int| derives_to(pre, j2, pk) && r0[pk] == origin_of(pre[j2]);
+                assert(derives_to(keys, j2, pk) && r[pk] == origin_of(keys[j2]));
+            }
+        }
+        assert forall|pk: secp256k1::PublicKey| !(exists|j: int| derives_to(keys, j, pk)) implies (#[trigger] r.contains_key(pk) <==> m.contains_key(pk)) && (m.contains_key(pk) ==> r[pk] == m[pk]) by {
+            assert(!derives_to(keys, keys.len() - 1, pk));
+            assert forall|j: int| !derives_to(pre, j, pk) by { if derives_to(pre, j, pk) { assert(derives_to(keys, j, pk)); } }
+        }
+    }
+}
+proof fn lemma_union_records(old_m: Map<secp256k1::PublicKey, bip32::KeySource>, keys: Seq<DefiniteDescriptorKey>)
+    ensures ({ let m = old_m.union_prefer_right(record_all(Map::empty(), keys));
+               every_key_recorded(m, keys) && origins_recorded(m, keys) && others_kept(old_m, m, keys) }),
+{
+    lemma_record_all(Map::empty(), keys);
+    let rec = record_all(Map::<secp256k1::PublicKey, bip32::KeySource>::empty(), keys);
+    let m = old_m.union_prefer_right(rec);
+    assert forall|j: int| 0 <= j < keys.len() implies m.contains_key((#[trigger] keys[j]).spec_derive().inner) by {}
+    assert forall|pk: secp256k1::PublicKey| (exists|j: int| derives_to(keys, j, pk)) implies #[trigger] m.contains_key(pk) && exists|j: int| derives_to(keys, j, pk) && m[pk] == origin_of(keys[j]) by {
+        assert(rec.contains_key(pk));
+    }
+    assert forall|pk: secp256k1::PublicKey| !(exists|j: int| derives_to(keys, j, pk)) implies (#[trigger] m.contains_key(pk) <==> old_m.contains_key(pk)) && (old_m.contains_key(pk) ==> m[pk] == old_m[pk]) by {
+        assert(rec.contains_key(pk) <==> Map::<secp256k1::PublicKey, bip32::KeySource>::empty().contains_key(pk));
+    }
+}
+"""
+
+# the fields `trait PsbtFields` gives access to: (method, view name, view type, returned type, optional?)
+FIELDS = [
+    ("redeem_script", "v_rs", "Option<ScriptBuf>", "Option<ScriptBuf>", False),
+    ("witness_script", "v_ws", "Option<ScriptBuf>", "Option<ScriptBuf>", False),
+    ("bip32_derivation", "v_bip32", "Map<secp256k1::PublicKey, bip32::KeySource>", "BTreeMap<secp256k1::PublicKey, bip32::KeySource>", False),
+    ("tap_internal_key", "v_tik", "Option<XOnlyPublicKey>", "Option<bitcoin::key::XOnlyPublicKey>", False),
+    ("tap_key_origins", "v_tko", "Map<XOnlyPublicKey, (Vec<TapLeafHash>, bip32::KeySource)>", "BTreeMap<bitcoin::key::XOnlyPublicKey, (Vec<TapLeafHash>, bip32::KeySource)>", False),
+    ("proprietary", "v_prop", "Map<raw::ProprietaryKey, Vec<u8>>", "BTreeMap<psbt::raw::ProprietaryKey, Vec<u8>>", False),
+    ("unknown", "v_unk", "Map<raw::Key, Vec<u8>>", "BTreeMap<psbt::raw::Key, Vec<u8>>", False),
+    ("tap_tree", "v_tt", "Option<TapTree>", "Option<taproot::TapTree>", True),
+    ("tap_scripts", "v_ts", "Map<ControlBlock, (ScriptBuf, LeafVersion)>", "BTreeMap<ControlBlock, (ScriptBuf, LeafVersion)>", True),
+    ("tap_merkle_root", "v_tmr", "Option<TapNodeHash>", "Option<taproot::TapNodeHash>", True),
+]
+
+
+def _view(expr, ret):
+    return "%s@" % expr if ret.startswith("BTreeMap") else "*%s" % expr
+
+
+def psbt_fields_trait():
+    """The Verus rendering of `trait PsbtFields`: one uninterpreted view per field; every accessor hands out exactly its own field
+    (BIP174: a field is one key-value entry of the map) and leaves every other one alone.  Optional accessors (fields that exist
+    only in inputs or only in outputs) answer None iff the item has no such field."""
+    out = ["pub trait PsbtFields: Sized {"]
+    for m, v, vt, rt, opt in FIELDS:
+        out.append("    spec fn %s(&self) -> %s;" % (v, "Option<%s>" % vt if opt else vt))
+    for m, v, vt, rt, opt in FIELDS:
+        frame = " && ".join("final(self).%s() == old(self).%s()" % (w, w) for _, w, _, _, _ in FIELDS if w != v)
+        if not opt:
+            out.append("    fn %s(&mut self) -> (r: &mut %s)\n        ensures %s == old(self).%s(), final(self).%s() == %s, %s;" % (
+                m, rt, _view("r", rt), v, v, _view("final(r)", rt), frame))
+        else:
+            out.append("    fn %s(&mut self) -> (r: Option<&mut %s>)\n        ensures r is Some <==> old(self).%s() is Some, r is None ==> *final(self) == *old(self),\n"
+                       "            r matches Some(p) ==> Some(%s) == old(self).%s() && final(self).%s() == Some(%s) && %s;" % (
+                           m, rt, v, _view("p", rt).replace("*p", "*p"), v, v, _view("final(p)", rt), frame))
+    out.append("}")
+    return "\n".join(out)
+
+
+def fields_views(kind):
+    """The views of psbt::Input / psbt::Output (spec fns of the impl)."""
+    absent = {"Input": ("tap_tree",), "Output": ("tap_scripts", "tap_merkle_root")}[kind]
+    out = []
+    for m, v, vt, rt, opt in FIELDS:
+        val = "self.%s@" % m if rt.startswith("BTreeMap") else "self.%s" % m
+        if opt:
+            val = "None" if m in absent else "Some(%s)" % val
+        out.append("    open spec fn %s(&self) -> %s { %s }" % (v, "Option<%s>" % vt if opt else vt, val))
+    return "\n".join(out)
+
+
+ORACLE_B = r"""
+// ---- oracle B: which scripts an Updater records (BIP174 + BIP16 / BIP141) ------------------------------------------------------
+%(desc_redeem)s
+%(desc_witness_script)s
+// BIP174 PSBT_IN_WITNESS_UTXO may stand alone only for a segwit spend ("for Segwit inputs"); everything else needs the whole transaction
+spec fn desc_is_segwit<Pk: MiniscriptKey>(d: Descriptor<Pk>) -> bool {
+    match d { Descriptor::Wpkh(_) => true, Descriptor::Wsh(_) => true, Descriptor::Tr(_) => true, Descriptor::Sh(s) => !(s.inner is Ms), _ => false }
+}
+spec fn taproot_and_unknown_fields_kept<F: PsbtFields>(a: F, b: F) -> bool {
+    a.v_tik() == b.v_tik() && a.v_tko() == b.v_tko() && a.v_tt() == b.v_tt() && a.v_ts() == b.v_ts() && a.v_tmr() == b.v_tmr() && a.v_prop() == b.v_prop() && a.v_unk() == b.v_unk()
+}
+// everything of a PSBT except the input / output maps
+spec fn same_globals(a: Psbt, b: Psbt) -> bool {
+    a.unsigned_tx == b.unsigned_tx && a.version == b.version && a.xpub == b.xpub && a.proprietary == b.proprietary && a.unknown == b.unknown
+}
+spec fn psbt_unchanged(a: Psbt, b: Psbt) -> bool { same_globals(a, b) && a.inputs@ =~= b.inputs@ && a.outputs@ =~= b.outputs@ }
+#[verifier::external_body]
+fn update_taproot_fields_excluded<F: PsbtFields>(item: &mut F, tr_derived: &Tr<PublicKey>, bip32_derivation: KeySourceLookUp) { unimplemented!() }
+"""
+
+
+def w_spec_fn(name):
+    m = re.search(r"(?ms)^spec fn %s<.*?^\}" % re.escape(name), W.UPDATER)
+    if not m:
+        raise Undecided("oracle %s not found in units/c16_wrappers.py UPDATER" % name)
+    return m.group(0)
+
+
+@rule("R9-taproot-branch")
+def cut_tr_branch(text):
+    """update_item_with_descriptor_helper: the body of `if let Descriptor::Tr(ref tr_derived) = &derived { .. }` is replaced by a
+    call to a stub that may change the item arbitrarily (nothing assumed, nothing claimed for tr descriptors)."""
+    m = re.search(r"if let Descriptor::Tr\(ref tr_derived\) = &derived\s*\{", text)
+    if not m:
+        return None
+    cl = match_close(text, m.end() - 1)
+    return text[:m.end()] + "\n        update_taproot_fields_excluded(item, tr_derived, bip32_derivation);\n    " + text[cl:]
+
+
+D_ = "derived_desc(*descriptor)"
+K_ = "desc_keys(*descriptor)"
+
+
+def _sh(v):
+    return "(%s matches Descriptor::Sh(s) && s.inner is %s)" % (D_, v)
+
+
+# what a successful update with a non-taproot descriptor records: (tag, property ids, statement over {O} = item before, {F} = item after)
+RECORDED = [
+    ("witness_script_recorded_iff_p2wsh", C14, "{F}.v_ws() == (if desc_witness_script(%s) is Some { desc_witness_script(%s) } else { {O}.v_ws() })" % (D_, D_)),
+    ("redeem_script_recorded_iff_p2sh", C14, "{F}.v_rs() == (if %s is Sh { desc_redeem(%s) } else { {O}.v_rs() })" % (D_, D_)),
+    ("wsh.witness_script_is_the_explicit_script", C14, "%s is Wsh ==> {F}.v_ws() == Some(desc_explicit(%s)) && {F}.v_rs() == {O}.v_rs()" % (D_, D_)),
+    ("sh_wsh.witness_script_is_the_explicit_script", C14, "%s ==> {F}.v_ws() == Some(desc_explicit(%s))" % (_sh("Wsh"), D_)),
+    ("sh_wsh.redeem_script_is_the_p2wsh_program", C14, "%s ==> {F}.v_rs() == Some(P2WSH(desc_explicit(%s)))" % (_sh("Wsh"), D_)),
+    ("sh_wpkh.redeem_script_is_the_p2wpkh_program", C14, "(%s matches Descriptor::Sh(s) ==> (s.inner matches ShInner::Wpkh(w) ==> {F}.v_rs() == Some(P2WPKH(w.pk)) && {F}.v_ws() == {O}.v_ws()))" % D_),
+    ("sh_ms.redeem_script_is_the_explicit_script", C14, "%s ==> {F}.v_rs() == Some(desc_explicit(%s)) && {F}.v_ws() == {O}.v_ws()" % (_sh("Ms"), D_)),
+    ("bare_pkh_wpkh.no_script_recorded", C14, "(%s is Bare || %s is Pkh || %s is Wpkh) ==> {F}.v_rs() == {O}.v_rs() && {F}.v_ws() == {O}.v_ws()" % (D_, D_, D_)),
+    ("redeem_script_hashes_to_the_script_pubkey", ("C14", "C16"), "%s is Sh ==> P2SH({F}.v_rs()->Some_0) == desc_spk(%s)" % (D_, D_)),
+    ("witness_script_hashes_to_the_witness_program", ("C14", "C16"), "desc_witness_script(%s) is Some ==> P2WSH({F}.v_ws()->Some_0) == (if %s is Sh { {F}.v_rs()->Some_0 } else { desc_spk(%s) })" % (D_, D_, D_)),
+    # BIP174: bip32_derivation maps the PUBLIC KEY (as in the script) to (master fingerprint, derivation path)
+    ("bip32.every_key_recorded_under_its_derived_public_key", C14, "every_key_recorded({F}.v_bip32(), %s)" % K_),
+    ("bip32.value_is_fingerprint_and_full_path_of_a_key_deriving_to_it", C14, "origins_recorded({F}.v_bip32(), %s)" % K_),
+    ("bip32.no_other_entry_added_or_changed", C14, "others_kept({O}.v_bip32(), {F}.v_bip32(), %s)" % K_),
+    ("taproot_and_unknown_fields_untouched", C14, "taproot_and_unknown_fields_kept({O}, {F})"),
+]
+
+
+def _inst(text, o, f):
+    return text.replace("{O}", o).replace("{F}", f)
+
+
+def recorded_spec():
+    body = "\n".join("    &&& (%s)" % _inst(t, "oi", "fi") for _, _, t in RECORDED)
+    return ("// the conjunction of the helper's per-field clauses (what its callers pass on)\n"
+            "spec fn recorded<F: PsbtFields>(oi: F, fi: F, descriptor: &Descriptor<DefiniteDescriptorKey>) -> bool {\n%s\n}\n" % body)
+
+
+def helper_contract():
+    OK = "r is Ok && r->Ok_0.1 && !(%s is Tr)" % D_
+    return Contract(ensures=[
+        C("never_fails", "r is Ok", ("C14", "C11")),
+        C("returns_the_derived_descriptor", "r is Ok ==> r->Ok_0.0 == %s" % D_),
+        C("script_pubkey_check_is_against_the_derived_descriptors_output", "r is Ok ==> (r->Ok_0.1 <==> (check_script matches Some(spk) ==> *spk == desc_spk(%s)))" % D_),
+        # BIP174: an Updater adds data that belongs to the input / output; for a foreign script it must add nothing
+        C("mismatch_writes_nothing", "r is Ok && !r->Ok_0.1 ==> *final(item) == *old(item)"),
+    ] + [Clause(tag, props, "%s ==> (%s)" % (OK, _inst(t, "(*old(item))", "(*final(item))"))) for tag, props, t in RECORDED] + [
+        C("records_everything", "%s ==> recorded(*old(item), *final(item), descriptor)" % OK, ()),
+    ] + tr_clauses())
+
+
+UTXO_ORACLE = r"""
+// ---- oracle: BIP174 UTXO fields of an input, as far as an Updater can check them ---------------------------------------------
+// PSBT_IN_NON_WITNESS_UTXO: "the transaction [...] must match the txid in the unsigned transaction's prevout"; the spent output is
+// the one the prevout index names (so it has to exist); PSBT_IN_WITNESS_UTXO alone only for segwit spends; if both are given they
+// must describe the same output
+spec fn utxo_checks_ok<Pk: MiniscriptKey>(p: Psbt, i: int, d: Descriptor<Pk>) -> bool {
+    let inp = p.inputs@[i];
+    let prev = p.unsigned_tx.input@[i].previous_output;
+    &&& psbt_wf(p, i)
+    &&& (inp.non_witness_utxo matches Some(tx) ==> tx.spec_txid() == prev.txid && (prev.vout as int) < tx.output@.len())
+    &&& (inp.witness_utxo is Some || inp.non_witness_utxo is Some)
+    &&& (inp.witness_utxo is Some && inp.non_witness_utxo is None ==> desc_is_segwit(d))
+    &&& (inp.witness_utxo matches Some(w) ==> (inp.non_witness_utxo matches Some(tx) ==> w == tx.output@[prev.vout as int]))
+}
+spec fn others_inputs_kept(a: Psbt, b: Psbt, i: int) -> bool {
+    same_globals(a, b) && a.outputs@ =~= b.outputs@ && a.inputs@.len() == b.inputs@.len()
+        && forall|j: int| 0 <= j < a.inputs@.len() && j != i ==> #[trigger] b.inputs@[j] == a.inputs@[j]
+}
+spec fn others_outputs_kept(a: Psbt, b: Psbt, i: int) -> bool {
+    same_globals(a, b) && a.inputs@ =~= b.inputs@ && a.outputs@.len() == b.outputs@.len()
+        && forall|j: int| 0 <= j < a.outputs@.len() && j != i ==> #[trigger] b.outputs@[j] == a.outputs@[j]
+}
+spec fn desc_type_of<Pk: MiniscriptKey>(d: Descriptor<Pk>) -> DescriptorType {
+    match d {
+        Descriptor::Bare(_) => DescriptorType::Bare, Descriptor::Pkh(_) => DescriptorType::Pkh, Descriptor::Wpkh(_) => DescriptorType::Wpkh,
+        Descriptor::Wsh(_) => DescriptorType::Wsh, Descriptor::Tr(_) => DescriptorType::Tr,
+        Descriptor::Sh(s) => match s.inner { ShInner::Wsh(_) => DescriptorType::ShWsh, ShInner::Wpkh(_) => DescriptorType::ShWpkh, ShInner::Ms(_) => DescriptorType::Sh },
+    }
+}
+"""
+
+
+def update_input_contract():
+    OS, FS = "(*old(self))", "(*final(self))"
+    I = "input_index as int"
+    INP = "%s.inputs@[%s]" % (OS, I)
+    PREV = "%s.unsigned_tx.input@[%s].previous_output" % (OS, I)
+    WF = "psbt_wf(%s, %s)" % (OS, I)
+    D = "derived_desc(*desc)"
+    CHK = "utxo_checks_ok(%s, %s, *desc)" % (OS, I)
+    E = "Err::<(), UtxoUpdateError>(UtxoUpdateError::%s)"
+    return Contract(ensures=[
+        C("index_out_of_bounds_reported", "input_index >= %s.inputs@.len() ==> r == %s" % (OS, E % ("IndexOutOfBounds(input_index, %s.inputs@.len() as usize)" % OS)), ("C14", "C11")),
+        C("missing_transaction_input_reported", "input_index < %s.inputs@.len() && input_index >= %s.unsigned_tx.input@.len() ==> r == %s" % (OS, OS, E % "MissingInputUtxo"), ("C14", "C11")),
+        # atomicity: a refused update adds nothing
+        C("failure_writes_nothing", "r is Err ==> psbt_unchanged(%s, %s)" % (OS, FS)),
+        C("other_inputs_outputs_and_globals_untouched", "others_inputs_kept(%s, %s, %s)" % (OS, FS, I)),
+        # BIP174 UTXO checks, one clause per rule
+        C("ok_only_if_non_witness_utxo_has_the_prevouts_txid", "r is Ok ==> %s && (%s.non_witness_utxo matches Some(tx) ==> tx.spec_txid() == %s.txid)" % (WF, INP, PREV)),
+        C("ok_only_if_prevout_index_names_an_output", "r is Ok ==> (%s.non_witness_utxo matches Some(tx) ==> (%s.vout as int) < tx.output@.len())" % (INP, PREV), ("C14", "C11")),
+        C("ok_only_with_a_utxo", "r is Ok ==> %s.witness_utxo is Some || %s.non_witness_utxo is Some" % (INP, INP)),
+        C("witness_utxo_alone_only_for_segwit_descriptors", "r is Ok && %s.witness_utxo is Some && %s.non_witness_utxo is None ==> desc_is_segwit(*desc)" % (INP, INP)),
+        C("both_utxos_must_describe_the_same_output", "r is Ok ==> (%s.witness_utxo matches Some(w) ==> (%s.non_witness_utxo matches Some(tx) ==> w == tx.output@[%s.vout as int]))" % (INP, INP, PREV)),
+        C("failed_utxo_check_reported", "%s && !%s ==> r == %s" % (WF, CHK, E % "UtxoCheck")),
+        # the descriptor must pay to the output being spent
+        C("ok_only_if_descriptor_pays_to_the_spent_output", "r is Ok ==> spent_output(%s, %s) is Some && spent_spk(%s, %s) == desc_spk(%s)" % (OS, I, OS, I, D)),
+        C("mismatched_script_pubkey_reported", "%s && spent_spk(%s, %s) != desc_spk(%s) ==> r == %s" % (CHK, OS, I, D, E % "MismatchedScriptPubkey")),
+        C("ok_whenever_checks_pass_and_script_pubkey_matches", "%s && spent_spk(%s, %s) == desc_spk(%s) ==> r is Ok" % (CHK, OS, I, D)),
+        C("records_scripts_and_key_origins", "r is Ok && !(%s is Tr) ==> recorded(%s, %s.inputs@[%s], desc)" % (D, INP, FS, I)),
+        C("records_taproot_data", "r is Ok && %s is Tr ==> recorded_tr(%s, %s.inputs@[%s], desc)" % (D, INP, FS, I)),
+    ])
+
+
+def update_output_contract():
+    OS, FS = "(*old(self))", "(*final(self))"
+    I = "output_index as int"
+    D = "derived_desc(*desc)"
+    E = "Err::<(), OutputUpdateError>(OutputUpdateError::%s)"
+    WF = "output_index < %s.outputs@.len() && output_index < %s.unsigned_tx.output@.len()" % (OS, OS)
+    SPK = "%s.unsigned_tx.output@[%s].script_pubkey" % (OS, I)
+    return Contract(ensures=[
+        C("index_out_of_bounds_reported", "output_index >= %s.outputs@.len() ==> r == %s" % (OS, E % ("IndexOutOfBounds(output_index, %s.outputs@.len() as usize)" % OS)), ("C14", "C11")),
+        C("missing_transaction_output_reported", "output_index < %s.outputs@.len() && output_index >= %s.unsigned_tx.output@.len() ==> r == %s" % (OS, OS, E % "MissingTxOut"), ("C14", "C11")),
+        C("failure_writes_nothing", "r is Err ==> psbt_unchanged(%s, %s)" % (OS, FS)),
+        C("other_outputs_inputs_and_globals_untouched", "others_outputs_kept(%s, %s, %s)" % (OS, FS, I)),
+        C("ok_only_if_descriptor_pays_to_the_transaction_output", "r is Ok ==> %s && %s == desc_spk(%s)" % (WF, SPK, D)),
+        C("mismatched_script_pubkey_reported", "%s && %s != desc_spk(%s) ==> r == %s" % (WF, SPK, D, E % "MismatchedScriptPubkey")),
+        C("ok_whenever_script_pubkey_matches", "%s && %s == desc_spk(%s) ==> r is Ok" % (WF, SPK, D)),
+        C("records_scripts_and_key_origins", "r is Ok && !(%s is Tr) ==> recorded(%s.outputs@[%s], %s.outputs@[%s], desc)" % (D, OS, I, FS, I)),
+        C("records_taproot_data", "r is Ok && %s is Tr ==> recorded_tr(%s.outputs@[%s], %s.outputs@[%s], desc)" % (D, OS, I, FS, I)),
+    ])
+
+
+# ----------------------------------------------------------------------------------------------------------------------
+# Plan::update_psbt_input
+# ----------------------------------------------------------------------------------------------------------------------
+SATMOD = "src/miniscript/satisfy/mod.rs"
+PLAN_SPEC = r"""
+// ---- Plan::update_psbt_input: "This will only add the metadata for items required to complete this plan" ---------------------
+// the keys the plan needs an ECDSA signature from, in template order
+spec fn sig_keys(t: Seq<Placeholder<DefiniteDescriptorKey>>) -> Seq<DefiniteDescriptorKey>
+    decreases t.len()
+{
+    if t.len() == 0 { Seq::<DefiniteDescriptorKey>::empty() }
+    else { let r = sig_keys(t.drop_last()); match t.last() { Placeholder::EcdsaSigPk(pk) => r.push(pk), _ => r } }
+}
+spec fn input_kept_except_scripts_and_bip32(a: Input, b: Input) -> bool {
+%(frame)s
+}
+#[verifier::external_body]
+fn plan_update_taproot_excluded(plan: &Plan<DefiniteDescriptorKey>, tr: &Tr<DefiniteDescriptorKey>, input: &mut Input) { unimplemented!() }
+"""
+
+
+@rule("R9-taproot-branch")
+def cut_plan_tr_branch(text):
+    m = re.search(r"if let Descriptor::Tr\(tr\) = &self\.descriptor\s*\{", text)
+    if not m:
+        return None
+    cl = match_close(text, m.end() - 1)
+    return text[:m.end()] + "\n            plan_update_taproot_excluded(self, tr, input);\n        " + text[cl:]
+
+
+@rule("R10-plan-loops")
+def plan_loops(text):
+    """Ghost only: names for the two `for` iterators, their invariants, the snapshot of the map before the inner loop and the
+    unfolding hints at the end of the outer loop body."""
+    a = re.search(r"for item in &self\.template\s*\{", text)
+    if not a:
+        return None
+    close = match_close(text, a.end() - 1)
+    body = text[a.end():close]
+    b = re.search(r"for derivation_path in pk\.full_derivation_paths\(\)\s*\{", body)
+    if not b:
+        return None
+    inner = ("let ghost m0_ = input.bip32_derivation@;\n                    for derivation_path in it2_: pk.full_derivation_paths()\n"
+             "                        invariant it2_.seq() == seq![pk.spec_full_path()], public_key == pk.spec_derive().inner, master_fingerprint == pk.spec_fingerprint(),\n"
+             "                            input.bip32_derivation@ == (if it2_.index() == 0 { m0_ } else { m0_.insert(pk.spec_derive().inner, origin_of(*pk)) }),\n"
+             "                            input_kept_except_scripts_and_bip32(*old(input), *input), input.redeem_script == old(input).redeem_script, input.witness_script == old(input).witness_script,\n"
+             "                    {")
+    body = body[:b.start()] + inner + body[b.end():]
+    hint = ("    proof {\n                    let t1_ = self.template@.take(it_.index() + 1);\n"
+            "                    assert(t1_.drop_last() =~= self.template@.take(it_.index() as int));\n"
+            "                    assert(t1_.last() == self.template@[it_.index() as int]);\n"
+            "                    if let Placeholder::EcdsaSigPk(k_) = t1_.last() {\n"
+            "                        let r_ = sig_keys(t1_.drop_last());\n"
+            "                        assert(r_.push(k_).drop_last() =~= r_);\n"
+            "                    }\n                }\n            ")
+    outer = ("for item in it_: &self.template\n"
+             "                invariant it_.seq().len() == self.template@.len(), forall|j: int| 0 <= j < self.template@.len() ==> *#[trigger] it_.seq()[j] == self.template@[j],\n"
+             "                    input.bip32_derivation@ == record_all(old(input).bip32_derivation@, sig_keys(self.template@.take(it_.index() as int))),\n"
+             "                    input_kept_except_scripts_and_bip32(*old(input), *input), input.redeem_script == old(input).redeem_script, input.witness_script == old(input).witness_script,\n"
+             "            {")
+    tail = ("\n            proof {\n                assert(self.template@.take(self.template@.len() as int) =~= self.template@);\n"
+            "                lemma_record_all(old(input).bip32_derivation@, sig_keys(self.template@));\n            }")
+    return text[:a.start()] + outer + body + hint + "}" + tail + text[close + 1:]
+
+
+def plan_contract():
+    D = "self.descriptor"
+    K = "sig_keys(self.template@)"
+    NT = "!(%s is Tr)" % D
+    FI, OI = "(*final(input))", "(*old(input))"
+    sh = lambda v: "(%s matches Descriptor::Sh(s) && s.inner is %s)" % (D, v)
+    return Contract(requires=[Clause("descriptor_type_invariant_wpkh_keys_compressed", (), "desc_keys_wf(%s)" % D)], ensures=[
+        C("witness_script_recorded_iff_p2wsh", "%s ==> %s.witness_script == (if desc_witness_script(%s) is Some { desc_witness_script(%s) } else { %s.witness_script })" % (NT, FI, D, D, OI)),
+        C("redeem_script_recorded_iff_p2sh", "%s ==> %s.redeem_script == (if %s is Sh { desc_redeem(%s) } else { %s.redeem_script })" % (NT, FI, D, D, OI)),
+        C("wsh.witness_script_is_the_explicit_script", "%s is Wsh ==> %s.witness_script == Some(desc_explicit(%s))" % (D, FI, D)),
+        C("sh_wsh.witness_script_is_the_explicit_script", "%s ==> %s.witness_script == Some(desc_explicit(%s))" % (sh("Wsh"), FI, D)),
+        C("sh_wsh.redeem_script_is_the_p2wsh_program", "%s ==> %s.redeem_script == Some(P2WSH(desc_explicit(%s)))" % (sh("Wsh"), FI, D)),
+        C("sh_wpkh.redeem_script_is_the_p2wpkh_program", "(%s matches Descriptor::Sh(s) ==> (s.inner matches ShInner::Wpkh(w) ==> %s.redeem_script == Some(P2WPKH(w.pk.spec_derive()))))" % (D, FI)),
+        C("sh_ms.redeem_script_is_the_explicit_script", "%s ==> %s.redeem_script == Some(desc_explicit(%s)) && %s.witness_script == %s.witness_script" % (sh("Ms"), FI, D, FI, OI)),
+        C("redeem_script_hashes_to_the_script_pubkey", "%s is Sh ==> P2SH(%s.redeem_script->Some_0) == desc_spk(%s)" % (D, FI, D), ("C14", "C16")),
+        C("witness_script_hashes_to_the_witness_program", "%s && desc_witness_script(%s) is Some ==> P2WSH(%s.witness_script->Some_0) == (if %s is Sh { %s.redeem_script->Some_0 } else { desc_spk(%s) })" % (NT, D, FI, D, FI, D), ("C14", "C16")),
+        C("bip32.every_signing_key_recorded_under_its_derived_public_key", "%s ==> every_key_recorded(%s.bip32_derivation@, %s)" % (NT, FI, K)),
+        C("bip32.value_is_fingerprint_and_full_path_of_a_key_deriving_to_it", "%s ==> origins_recorded(%s.bip32_derivation@, %s)" % (NT, FI, K)),
+        C("bip32.no_other_entry_added_or_changed", "%s ==> others_kept(%s.bip32_derivation@, %s.bip32_derivation@, %s)" % (NT, OI, FI, K)),
+        C("nothing_but_scripts_and_key_origins_written", "%s ==> input_kept_except_scripts_and_bip32(%s, %s)" % (NT, OI, FI)),
+    ])
+
+
+# ----------------------------------------------------------------------------------------------------------------------
+# the taproot branch of update_item_with_descriptor_helper
+# ----------------------------------------------------------------------------------------------------------------------
+TR_PRELUDE = r"""
+// ---- taproot spend data of a derived tr() descriptor: uninterpreted functions of the descriptor (C15 decides the hashes) ------
+pub struct Tap { pub never: u8 }
+impl ScriptContext for Tap {}
+pub uninterp spec fn xonly_of(k: secp256k1::PublicKey) -> XOnlyPublicKey;          // BIP340: the x coordinate
+impl secp256k1::PublicKey {
+    // `impl ToPublicKey for secp256k1::PublicKey` + the trait's default to_x_only_pubkey (src/lib.rs)
+    #[verifier::external_body] pub fn to_x_only_pubkey(&self) -> (r: XOnlyPublicKey) ensures r == xonly_of(*self) { unimplemented!() }
+}
+impl PublicKey {
+    // the trait's default body: XOnlyPublicKey::from(self.to_public_key().inner)
+    #[verifier::external_body] pub fn to_x_only_pubkey(&self) -> (r: XOnlyPublicKey) ensures r == xonly_of(self.inner) { unimplemented!() }
+}
+impl Clone for ControlBlock {
+    #[verifier::external_body] fn clone(&self) -> (r: ControlBlock) ensures r == *self { unimplemented!() }
+}
+impl ScriptBuf {
+    // `impl From<&Script> for ScriptBuf`: an owned copy
+    #[verifier::external_body] pub fn from(s: &ScriptBuf) -> (r: ScriptBuf) ensures r == *s { unimplemented!() }
+}
+// one leaf of the script tree as the spend info presents it
+pub ghost struct LeafView { pub script: ScriptBuf, pub version: LeafVersion, pub leaf_hash: TapLeafHash, pub control_block: ControlBlock, pub keys: Seq<PublicKey> }
+pub struct TrSpendInfo<Pk> { pub opaque: u64, pub phantom: PhantomData<Pk> }
+pub struct TrSpendInfoIter<'sp, Pk> { pub si: &'sp TrSpendInfo<Pk> }
+pub struct TrSpendInfoIterItem<'sp, Pk> { pub opaque: u64, pub phantom: PhantomData<&'sp Pk> }
+pub struct PkIter<'a, Pk: MiniscriptKey, Ctx: ScriptContext> { pub ms: &'a Miniscript<Pk, Ctx> }
+impl<Pk> TrSpendInfo<Pk> {
+    pub uninterp spec fn spec_internal_key(&self) -> XOnlyPublicKey;
+    pub uninterp spec fn spec_merkle_root(&self) -> Option<TapNodeHash>;
+    pub uninterp spec fn spec_leaves(&self) -> Seq<LeafView>;
+    pub uninterp spec fn spec_tap_tree(&self) -> Option<TapTree>;
+    #[verifier::external_body] pub fn internal_key(&self) -> (r: XOnlyPublicKey) ensures r == self.spec_internal_key() { unimplemented!() }
+    #[verifier::external_body] pub fn merkle_root(&self) -> (r: Option<TapNodeHash>) ensures r == self.spec_merkle_root() { unimplemented!() }
+    #[verifier::external_body] pub fn to_tap_tree(&self) -> (r: Option<TapTree>) ensures r == self.spec_tap_tree() { unimplemented!() }
+    #[verifier::external_body] pub fn leaves<'sp>(&'sp self) -> (r: TrSpendInfoIter<'sp, Pk>) ensures r.si == self { unimplemented!() }
+}
+impl<'sp, Pk: MiniscriptKey> TrSpendInfoIterItem<'sp, Pk> {
+    pub uninterp spec fn view(&self) -> LeafView;
+    pub uninterp spec fn spec_ms(&self) -> Miniscript<Pk, Tap>;
+    #[verifier::external_body] pub fn script(&self) -> (r: &'sp ScriptBuf) ensures *r == self.view().script { unimplemented!() }
+    #[verifier::external_body] pub fn leaf_version(&self) -> (r: LeafVersion) ensures r == self.view().version { unimplemented!() }
+    #[verifier::external_body] pub fn leaf_hash(&self) -> (r: TapLeafHash) ensures r == self.view().leaf_hash { unimplemented!() }
+    #[verifier::external_body] pub fn control_block(&self) -> (r: &ControlBlock) ensures *r == self.view().control_block { unimplemented!() }
+    #[verifier::external_body] pub fn miniscript(&self) -> (r: &'sp Arc<Miniscript<Pk, Tap>>) ensures **r == self.spec_ms() { unimplemented!() }
+}
+impl<Pk: MiniscriptKey, Ctx: ScriptContext> Miniscript<Pk, Ctx> {
+    #[verifier::external_body] pub fn iter_pk<'a>(&'a self) -> (r: PkIter<'a, Pk, Ctx>) ensures r.ms == self { unimplemented!() }
+}
+// `for leaf in spend_info.leaves()`: the leaves left to right (TrSpendInfoIter::next)
+#[verifier::external_body]
+pub fn tr_leaves_as_vec<'sp, Pk: MiniscriptKey>(it: TrSpendInfoIter<'sp, Pk>) -> (r: Vec<TrSpendInfoIterItem<'sp, Pk>>)
+    ensures r@.len() == it.si.spec_leaves().len(), forall|l: int| 0 <= l < r@.len() ==> (#[trigger] r@[l]).view() == it.si.spec_leaves()[l],
+{ unimplemented!() }
+pub uninterp spec fn tap_ms_keys(ms: Miniscript<PublicKey, Tap>) -> Seq<PublicKey>;
+// `for pk in ms.iter_pk()`: the keys of the miniscript (clones), in iteration order
+#[verifier::external_body]
+pub fn pk_iter_as_vec<'a>(it: PkIter<'a, PublicKey, Tap>) -> (r: Vec<PublicKey>) ensures r@ == tap_ms_keys(*it.ms) { unimplemented!() }
+// `for (k, v) in map` (BTreeMap::into_iter): every entry once, ascending in k
+#[verifier::external_body]
+pub fn btree_into_vec<K, V>(m: BTreeMap<K, V>) -> (r: Vec<(K, V)>)
+    ensures forall|j: int| 0 <= j < r@.len() ==> m@.contains_key((#[trigger] r@[j]).0) && m@[r@[j].0] == r@[j].1,
+            forall|k: K| m@.contains_key(k) ==> exists|j: int| 0 <= j < r@.len() && (#[trigger] r@[j]).0 == k,
+{ unimplemented!() }
+// Vec<TapLeafHash>::sort / dedup (TapLeafHash: Ord is the byte order of the hash; uninterpreted total order)
+pub uninterp spec fn leaf_hash_le(a: TapLeafHash, b: TapLeafHash) -> bool;
+pub open spec fn strictly_sorted(s: Seq<TapLeafHash>) -> bool { forall|a: int, b: int| 0 <= a < b < s.len() ==> leaf_hash_le(s[a], s[b]) && s[a] != s[b] }
+pub open spec fn weakly_sorted(s: Seq<TapLeafHash>) -> bool { forall|a: int, b: int| 0 <= a < b < s.len() ==> leaf_hash_le(s[a], s[b]) }
+#[verifier::external_body]
+pub fn vec_sort(v: &mut Vec<TapLeafHash>)
+    ensures weakly_sorted(final(v)@), forall|h: TapLeafHash| final(v)@.contains(h) <==> old(v)@.contains(h),
+{ unimplemented!() }
+// "Removes consecutive repeated elements": on a sorted vector no two equal elements remain
+#[verifier::external_body]
+pub fn vec_dedup(v: &mut Vec<TapLeafHash>)
+    ensures weakly_sorted(old(v)@) ==> strictly_sorted(final(v)@), forall|h: TapLeafHash| final(v)@.contains(h) <==> old(v)@.contains(h),
+{ unimplemented!() }
+"""
+
+TR_SPEC = r"""
+impl Tr<PublicKey> {
+    uninterp spec fn spec_spend_info(&self) -> TrSpendInfo<PublicKey>;
+    #[verifier::external_body]
+    fn spend_info(&self) -> (r: Arc<TrSpendInfo<PublicKey>>) ensures *r == self.spec_spend_info() { unimplemented!() }
+}
+// the keys of a leaf, as the spend info's view and as the leaf's miniscript iterates them, are the same thing
+#[verifier::external_body]
+proof fn axiom_leaf_keys<'sp>(it: TrSpendInfoIterItem<'sp, PublicKey>)
+    ensures tap_ms_keys(it.spec_ms()) == it.view().keys,
+{}
+// every key of a leaf of the DERIVED descriptor is the derivation of a key of the descriptor (C20: translate_pk maps key by key)
+spec fn leaf_keys_derived(leaves: Seq<LeafView>, keys: Seq<DefiniteDescriptorKey>) -> bool {
+    forall|l: int, j: int| 0 <= l < leaves.len() && 0 <= j < leaves[l].keys.len() ==> exists|i: int| 0 <= i < keys.len() && (#[trigger] keys[i]).spec_derive() == #[trigger] leaves[l].keys[j]
+}
+#[verifier::external_body]
+proof fn axiom_leaf_keys_derived(d: Descriptor<DefiniteDescriptorKey>)
+    ensures derived_desc(d) matches Descriptor::Tr(t) ==> leaf_keys_derived(t.spec_spend_info().spec_leaves(), desc_keys(d)),
+{}
+
+// ---- maps built by successive inserts over a base map (generic bookkeeping) -------------------------------------------------
+spec fn hit<K>(ks: Seq<K>, n: int, j: int, k: K) -> bool { 0 <= j < n && ks[j] == k }
+spec fn ins_inv<K, V>(base: Map<K, V>, m: Map<K, V>, ks: Seq<K>, vs: Seq<V>, n: int) -> bool {
+    &&& forall|j: int| 0 <= j < n ==> m.contains_key(#[trigger] ks[j])
+    &&& forall|k: K| (exists|j: int| hit(ks, n, j, k)) ==> #[trigger] m.contains_key(k) && exists|j: int| hit(ks, n, j, k) && m[k] == vs[j]
+    &&& forall|k: K| !(exists|j: int| hit(ks, n, j, k)) ==> (#[trigger] m.contains_key(k) <==> base.contains_key(k)) && (base.contains_key(k) ==> m[k] == base[k])
+}
+proof fn lemma_ins_step<K, V>(base: Map<K, V>, m: Map<K, V>, ks: Seq<K>, vs: Seq<V>, n: int)
+    requires ins_inv(base, m, ks, vs, n), 0 <= n < ks.len(), ks.len() == vs.len(),
+    ensures ins_inv(base, m.insert(ks[n], vs[n]), ks, vs, n + 1),
+{
+    let m2 = m.insert(ks[n], vs[n]);
+    let n1 = n + 1;
+    assert forall|j: int| 0 <= j < n1 implies m2.contains_key(#[trigger] ks[j]) by {}
+    assert forall|k: K| (exists|j: int| hit(ks, n1, j, k)) implies #[trigger] m2.contains_key(k) && exists|j: int| hit(ks, n1, j, k) && m2[k] == vs[j] by {
+        if ks[n] == k { assert(hit(ks, n1, n, k)); }
+        else {
+            let j = choose|j: int| hit(ks, n1, j, k);
+            assert(hit(ks, n, j, k));
+            let j2 = choose|j2: int| hit(ks, n, j2, k) && m[k] == vs[j2];
+            assert(hit(ks, n1, j2, k) && m2[k] == vs[j2]);
+        }
+    }
+    assert forall|k: K| !(exists|j: int| hit(ks, n1, j, k)) implies (#[trigger] m2.contains_key(k) <==> base.contains_key(k)) && (base.contains_key(k) ==> m2[k] == base[k]) by {
+        assert(!hit(ks, n1, n, k));
+        assert forall|j: int| !hit(ks, n, j, k) by { if hit(ks, n, j, k) { assert(hit(ks, n1, j, k)); } }
+    }
+}
+
+// ---- oracle: BIP371 taproot fields ---------------------------------------------------------------------------------------------
+type Tko = Map<XOnlyPublicKey, (Vec<TapLeafHash>, bip32::KeySource)>;
+type Ts = Map<ControlBlock, (ScriptBuf, LeafVersion)>;
+spec fn xkey_of(k: DefiniteDescriptorKey) -> XOnlyPublicKey { xonly_of(k.spec_derive().inner) }
+spec fn is_desc_xkey(keys: Seq<DefiniteDescriptorKey>, i: int, x: XOnlyPublicKey) -> bool { 0 <= i < keys.len() && xkey_of(keys[i]) == x }
+spec fn in_leaf_upto(lf: LeafView, kn: int, x: XOnlyPublicKey) -> bool { exists|j: int| 0 <= j < kn && j < lf.keys.len() && xonly_of((#[trigger] lf.keys[j]).inner) == x }
+// BIP371: "the leaf hashes [...] of the leaves this key is involved in"
+spec fn in_leaf_with_hash(leaves: Seq<LeafView>, ln: int, l: int, x: XOnlyPublicKey, h: TapLeafHash) -> bool {
+    0 <= l < ln && l < leaves.len() && leaves[l].leaf_hash == h && in_leaf_upto(leaves[l], leaves[l].keys.len() as int, x)
+}
+spec fn has_hash(leaves: Seq<LeafView>, ln: int, x: XOnlyPublicKey, h: TapLeafHash) -> bool { exists|l: int| in_leaf_with_hash(leaves, ln, l, x, h) }
+spec fn leaf_at_cb(leaves: Seq<LeafView>, ln: int, l: int, cb: ControlBlock) -> bool { 0 <= l < ln && l < leaves.len() && leaves[l].control_block == cb }
+
+// PSBT_{IN,OUT}_TAP_BIP32_DERIVATION: <x-only key> -> (leaf hashes, master fingerprint, derivation path)
+spec fn tko_every_key_recorded(t: Tko, keys: Seq<DefiniteDescriptorKey>) -> bool { forall|i: int| 0 <= i < keys.len() ==> t.contains_key(xkey_of(#[trigger] keys[i])) }
+spec fn tko_origins(t: Tko, keys: Seq<DefiniteDescriptorKey>) -> bool {
+    forall|x: XOnlyPublicKey| (exists|i: int| is_desc_xkey(keys, i, x)) ==> #[trigger] t.contains_key(x) && exists|i: int| is_desc_xkey(keys, i, x) && t[x].1 == origin_of(keys[i])
+}
+spec fn tko_leaf_hashes(t: Tko, keys: Seq<DefiniteDescriptorKey>, leaves: Seq<LeafView>) -> bool {
+    forall|x: XOnlyPublicKey, h: TapLeafHash| (exists|i: int| is_desc_xkey(keys, i, x)) ==> (#[trigger] t[x].0@.contains(h) <==> has_hash(leaves, leaves.len() as int, x, h))
+}
+// "The internal key does not have leaf hashes": a key that occurs in no leaf has the empty list
+spec fn tko_keys_outside_leaves_have_no_hashes(t: Tko, keys: Seq<DefiniteDescriptorKey>, leaves: Seq<LeafView>) -> bool {
+    forall|x: XOnlyPublicKey| (exists|i: int| is_desc_xkey(keys, i, x)) && (forall|l: int| 0 <= l < leaves.len() ==> !in_leaf_upto(#[trigger] leaves[l], leaves[l].keys.len() as int, x)) ==> (#[trigger] t[x]).0@.len() == 0
+}
+spec fn tko_sorted_without_duplicates(t: Tko) -> bool { forall|x: XOnlyPublicKey| #[trigger] t.contains_key(x) ==> strictly_sorted(t[x].0@) }
+spec fn tko_others_kept(t0: Tko, t: Tko, keys: Seq<DefiniteDescriptorKey>) -> bool {
+    forall|x: XOnlyPublicKey| !(exists|i: int| is_desc_xkey(keys, i, x)) ==> (#[trigger] t.contains_key(x) <==> t0.contains_key(x))
+        && (t0.contains_key(x) ==> t[x].1 == t0[x].1 && forall|h: TapLeafHash| t[x].0@.contains(h) <==> t0[x].0@.contains(h))
+}
+// PSBT_IN_TAP_LEAF_SCRIPT: <control block> -> <script> <leaf version>, one entry per leaf
+spec fn ts_every_leaf(ts: Ts, leaves: Seq<LeafView>) -> bool {
+    forall|l: int| 0 <= l < leaves.len() ==> ts.contains_key((#[trigger] leaves[l]).control_block)
+        && exists|l2: int| leaf_at_cb(leaves, leaves.len() as int, l2, leaves[l].control_block) && ts[leaves[l].control_block] == (leaves[l2].script, leaves[l2].version)
+}
+spec fn ts_others_kept(ts0: Ts, ts: Ts, leaves: Seq<LeafView>) -> bool {
+    forall|cb: ControlBlock| !(exists|l: int| leaf_at_cb(leaves, leaves.len() as int, l, cb)) ==> (#[trigger] ts.contains_key(cb) <==> ts0.contains_key(cb)) && (ts0.contains_key(cb) ==> ts[cb] == ts0[cb])
+}
+
+// ---- loop invariants --------------------------------------------------------------------------------------------------------------
+type Ent = (secp256k1::PublicKey, bip32::KeySource);
+spec fn ent_x(es: Seq<Ent>) -> Seq<XOnlyPublicKey> { Seq::new(es.len(), |j: int| xonly_of(es[j].0)) }
+spec fn is_new(es: Seq<Ent>, x: XOnlyPublicKey) -> bool { exists|j: int| hit(ent_x(es), es.len() as int, j, x) }
+// loop 1 (one entry per recorded key): x-only key -> (no leaf hashes yet, origin)
+spec fn l1_inv(t0: Tko, t: Tko, es: Seq<Ent>, n: int) -> bool {
+    &&& forall|j: int| 0 <= j < n ==> t.contains_key(#[trigger] ent_x(es)[j])
+    &&& forall|x: XOnlyPublicKey| (exists|j: int| hit(ent_x(es), n, j, x)) ==> #[trigger] t.contains_key(x) && t[x].0@.len() == 0 && exists|j: int| hit(ent_x(es), n, j, x) && t[x].1 == es[j].1
+    &&& forall|x: XOnlyPublicKey| !(exists|j: int| hit(ent_x(es), n, j, x)) ==> (#[trigger] t.contains_key(x) <==> t0.contains_key(x)) && (t0.contains_key(x) ==> t[x] == t0[x])
+}
+proof fn lemma_l1_step(t0: Tko, t: Tko, es: Seq<Ent>, n: int, v: (Vec<TapLeafHash>, bip32::KeySource))
+    requires l1_inv(t0, t, es, n), 0 <= n < es.len(), v.0@.len() == 0, v.1 == es[n].1,
+    ensures l1_inv(t0, t.insert(xonly_of(es[n].0), v), es, n + 1),
+{
+    let xs = ent_x(es);
+    let t2 = t.insert(xs[n], v);
+    let n1 = n + 1;
+    assert forall|j: int| 0 <= j < n1 implies t2.contains_key(#[trigger] xs[j]) by {}
+    assert forall|x: XOnlyPublicKey| (exists|j: int| hit(xs, n1, j, x)) implies #[trigger] t2.contains_key(x) && t2[x].0@.len() == 0 && exists|j: int| hit(xs, n1, j, x) && t2[x].1 == es[j].1 by {
+        if xs[n] == x { assert(hit(xs, n1, n, x)); }
+        else {
+            let j = choose|j: int| hit(xs, n1, j, x);
+            assert(hit(xs, n, j, x));
+            let j2 = choose|j2: int| hit(xs, n, j2, x) && t[x].1 == es[j2].1;
+            assert(hit(xs, n1, j2, x) && t2[x].1 == es[j2].1);
+        }
+    }
+    assert forall|x: XOnlyPublicKey| !(exists|j: int| hit(xs, n1, j, x)) implies (#[trigger] t2.contains_key(x) <==> t0.contains_key(x)) && (t0.contains_key(x) ==> t2[x] == t0[x]) by {
+        assert(!hit(xs, n1, n, x));
+        assert forall|j: int| !hit(xs, n, j, x) by { if hit(xs, n, j, x) { assert(hit(xs, n1, j, x)); } }
+    }
+}
+// loops 2 / 3 (leaves, keys of a leaf): the hashes collected so far for the new keys; everything else as after loop 1
+spec fn l2_inv(t1: Tko, t: Tko, es: Seq<Ent>, leaves: Seq<LeafView>, ln: int, kn: int) -> bool {
+    &&& forall|x: XOnlyPublicKey| #[trigger] t.contains_key(x) <==> t1.contains_key(x)
+    &&& forall|x: XOnlyPublicKey| #[trigger] t.contains_key(x) ==> t[x].1 == t1[x].1
+    &&& forall|x: XOnlyPublicKey| t1.contains_key(x) && !is_new(es, x) ==> #[trigger] t[x] == t1[x]
+    &&& forall|x: XOnlyPublicKey, h: TapLeafHash| is_new(es, x) ==> (#[trigger] t[x].0@.contains(h) <==>
+            has_hash(leaves, ln, x, h) || (0 <= ln < leaves.len() && h == leaves[ln].leaf_hash && in_leaf_upto(leaves[ln], kn, x)))
+}
+proof fn lemma_push_contains<T>(s: Seq<T>, a: T)
+    ensures forall|h: T| s.push(a).contains(h) <==> s.contains(h) || h == a,
+{
+    assert forall|h: T| s.push(a).contains(h) <==> s.contains(h) || h == a by {
+        if s.contains(h) { let i = choose|i: int| 0 <= i < s.len() && s[i] == h; assert(s.push(a)[i] == h); }
+        if h == a { assert(s.push(a)[s.len() as int] == h); }
+        if s.push(a).contains(h) { let i = choose|i: int| 0 <= i < s.push(a).len() && s.push(a)[i] == h; if i < s.len() { assert(s[i] == h); } }
+    }
+}
+proof fn lemma_l2_key_step(t1: Tko, t: Tko, es: Seq<Ent>, leaves: Seq<LeafView>, ln: int, kn: int, v: (Vec<TapLeafHash>, bip32::KeySource))
+    requires
+        l2_inv(t1, t, es, leaves, ln, kn), 0 <= ln < leaves.len(), 0 <= kn < leaves[ln].keys.len(),
+        ({ let xk = xonly_of(leaves[ln].keys[kn].inner);
+           is_new(es, xk) && t.contains_key(xk) && v.1 == t[xk].1 && forall|h: TapLeafHash| v.0@.contains(h) <==> t[xk].0@.contains(h) || h == leaves[ln].leaf_hash }),
+    ensures l2_inv(t1, t.insert(xonly_of(leaves[ln].keys[kn].inner), v), es, leaves, ln, kn + 1),
+{
+    let lf = leaves[ln];
+    let xk = xonly_of(lf.keys[kn].inner);
+    let t2 = t.insert(xk, v);
+    assert forall|x: XOnlyPublicKey, h: TapLeafHash| is_new(es, x) implies (#[trigger] t2[x].0@.contains(h) <==>
+            has_hash(leaves, ln, x, h) || (h == lf.leaf_hash && in_leaf_upto(lf, kn + 1, x))) by {
+        if in_leaf_upto(lf, kn, x) { let j = choose|j: int| 0 <= j < kn && j < lf.keys.len() && xonly_of((#[trigger] lf.keys[j]).inner) == x; assert(0 <= j < kn + 1 && xonly_of(lf.keys[j].inner) == x); }
+        if x == xk { assert(xonly_of(lf.keys[kn].inner) == x); }
+        if in_leaf_upto(lf, kn + 1, x) {
+            let j = choose|j: int| 0 <= j < kn + 1 && j < lf.keys.len() && xonly_of((#[trigger] lf.keys[j]).inner) == x;
+            if j < kn { assert(xonly_of(lf.keys[j].inner) == x); } else { assert(x == xk); }
+        }
+    }
+}
+proof fn lemma_l2_leaf_done(t1: Tko, t: Tko, es: Seq<Ent>, leaves: Seq<LeafView>, ln: int)
+    requires l2_inv(t1, t, es, leaves, ln, leaves[ln].keys.len() as int), 0 <= ln < leaves.len(),
+    ensures l2_inv(t1, t, es, leaves, ln + 1, 0),
+{
+    let lf = leaves[ln];
+    let ln1 = ln + 1;
+    assert forall|x: XOnlyPublicKey, h: TapLeafHash| is_new(es, x) implies (#[trigger] t[x].0@.contains(h) <==>
+            has_hash(leaves, ln1, x, h) || (0 <= ln1 < leaves.len() && h == leaves[ln1].leaf_hash && in_leaf_upto(leaves[ln1], 0, x))) by {
+        if has_hash(leaves, ln, x, h) { let l = choose|l: int| in_leaf_with_hash(leaves, ln, l, x, h); assert(in_leaf_with_hash(leaves, ln1, l, x, h)); }
+        if h == lf.leaf_hash && in_leaf_upto(lf, lf.keys.len() as int, x) { assert(in_leaf_with_hash(leaves, ln1, ln, x, h)); }
+        if has_hash(leaves, ln1, x, h) {
+            let l = choose|l: int| in_leaf_with_hash(leaves, ln1, l, x, h);
+            if l < ln { assert(in_leaf_with_hash(leaves, ln, l, x, h)); }
+        }
+    }
+}
+// the script map: one entry per leaf visited
+spec fn ts_inv(ts0: Option<Ts>, ts: Option<Ts>, leaves: Seq<LeafView>, ln: int) -> bool {
+    &&& ts0 is Some <==> ts is Some
+    &&& ts is Some ==> ins_inv(ts0->Some_0, ts->Some_0, Seq::new(leaves.len(), |l: int| leaves[l].control_block), Seq::new(leaves.len(), |l: int| (leaves[l].script, leaves[l].version)), ln)
+}
+// the step of loop 4 (`for (hashes, _) in map.values_mut() { hashes.sort(); hashes.dedup(); }`), as a relation on one value
+spec fn sort_dedup_post(a: Seq<TapLeafHash>, b: Seq<TapLeafHash>) -> bool { strictly_sorted(b) && forall|h: TapLeafHash| b.contains(h) <==> a.contains(h) }
+// BTreeMap::values_mut visits every value once: each value's hash list is related to its old one by the step, nothing else changes
+#[verifier::external_body]
+fn btree_values_mut_sort_dedup(m: &mut BTreeMap<XOnlyPublicKey, (Vec<TapLeafHash>, bip32::KeySource)>)
+    ensures forall|x: XOnlyPublicKey| #[trigger] final(m)@.contains_key(x) <==> old(m)@.contains_key(x),
+            forall|x: XOnlyPublicKey| #[trigger] final(m)@.contains_key(x) ==> final(m)@[x].1 == old(m)@[x].1 && sort_dedup_post(old(m)@[x].0@, final(m)@[x].0@),
+{ unimplemented!() }
+
+// from the loop invariants to the BIP371 statements
+proof fn lemma_tr_final(t0: Tko, t1: Tko, t2: Tko, t3: Tko, es: Seq<Ent>, xpub: Map<secp256k1::PublicKey, bip32::KeySource>, keys: Seq<DefiniteDescriptorKey>, leaves: Seq<LeafView>)
+    requires
+        xpub == record_all(Map::empty(), keys),
+        forall|j: int| 0 <= j < es.len() ==> xpub.contains_key((#[trigger] es[j]).0) && xpub[es[j].0] == es[j].1,
+        forall|k: secp256k1::PublicKey| xpub.contains_key(k) ==> exists|j: int| 0 <= j < es.len() && (#[trigger] es[j]).0 == k,
+        l1_inv(t0, t1, es, es.len() as int),
+        l2_inv(t1, t2, es, leaves, leaves.len() as int, 0),
+        forall|x: XOnlyPublicKey| #[trigger] t3.contains_key(x) <==> t2.contains_key(x),
+        forall|x: XOnlyPublicKey| #[trigger] t3.contains_key(x) ==> t3[x].1 == t2[x].1 && sort_dedup_post(t2[x].0@, t3[x].0@),
+    ensures
+        tko_every_key_recorded(t3, keys), tko_origins(t3, keys), tko_leaf_hashes(t3, keys, leaves), tko_keys_outside_leaves_have_no_hashes(t3, keys, leaves),
+        tko_sorted_without_duplicates(t3), tko_others_kept(t0, t3, keys),
+{
+    lemma_record_all(Map::empty(), keys);
+    let xs = ent_x(es);
+    let n = es.len() as int;
+    // a descriptor x-only key is a new key and vice versa
+    assert forall|x: XOnlyPublicKey| (exists|i: int| is_desc_xkey(keys, i, x)) <==> is_new(es, x) by {
+        if exists|i: int| is_desc_xkey(keys, i, x) {
+            let i = choose|i: int| is_desc_xkey(keys, i, x);
+            let pk = keys[i].spec_derive().inner;
+            assert(xpub.contains_key(pk));
+            let j = choose|j: int| 0 <= j < es.len() && (#[trigger] es[j]).0 == pk;
+            assert(hit(xs, n, j, x));
+        }
+        if is_new(es, x) {
+            let j = choose|j: int| hit(xs, n, j, x);
+            let pk = es[j].0;
+            assert(xpub.contains_key(pk));
+            if !(exists|i: int| derives_to(keys, i, pk)) { assert(xpub.contains_key(pk) <==> Map::<secp256k1::PublicKey, bip32::KeySource>::empty().contains_key(pk)); }
+            let i = choose|i: int| derives_to(keys, i, pk);
+            assert(is_desc_xkey(keys, i, x));
+        }
+    }
+    assert forall|i: int| 0 <= i < keys.len() implies t3.contains_key(xkey_of(#[trigger] keys[i])) by {
+        assert(is_desc_xkey(keys, i, xkey_of(keys[i])));
+        assert(is_new(es, xkey_of(keys[i])));
+        let j = choose|j: int| hit(xs, n, j, xkey_of(keys[i]));
+        assert(t1.contains_key(xs[j]));
+    }
+    assert forall|x: XOnlyPublicKey| (exists|i: int| is_desc_xkey(keys, i, x)) implies #[trigger] t3.contains_key(x) && exists|i: int| is_desc_xkey(keys, i, x) && t3[x].1 == origin_of(keys[i]) by {
+        assert(is_new(es, x));
+        assert(t1.contains_key(x));
+        let j = choose|j: int| hit(xs, n, j, x) && t1[x].1 == es[j].1;
+        let pk = es[j].0;
+        assert(xpub.contains_key(pk) && xpub[pk] == es[j].1);
+        if !(exists|i: int| derives_to(keys, i, pk)) { assert(xpub.contains_key(pk) <==> Map::<secp256k1::PublicKey, bip32::KeySource>::empty().contains_key(pk)); }
+        let i = choose|i: int| derives_to(keys, i, pk) && xpub[pk] == origin_of(keys[i]);
+        assert(is_desc_xkey(keys, i, x) && t3[x].1 == origin_of(keys[i]));
+    }
+    assert forall|x: XOnlyPublicKey, h: TapLeafHash| (exists|i: int| is_desc_xkey(keys, i, x)) implies (#[trigger] t3[x].0@.contains(h) <==> has_hash(leaves, leaves.len() as int, x, h)) by {
+        assert(is_new(es, x));
+        assert(t1.contains_key(x) && t2.contains_key(x) && t3.contains_key(x));
+        assert(t2[x].0@.contains(h) <==> has_hash(leaves, leaves.len() as int, x, h));
+    }
+    assert forall|x: XOnlyPublicKey| (exists|i: int| is_desc_xkey(keys, i, x)) && (forall|l: int| 0 <= l < leaves.len() ==> !in_leaf_upto(#[trigger] leaves[l], leaves[l].keys.len() as int, x))
+        implies (#[trigger] t3[x]).0@.len() == 0 by {
+        let s = t3[x].0@;
+        if s.len() > 0 {
+            assert(s.contains(s[0]));
+            assert(has_hash(leaves, leaves.len() as int, x, s[0]));
+            let l = choose|l: int| in_leaf_with_hash(leaves, leaves.len() as int, l, x, s[0]);
+            assert(in_leaf_upto(leaves[l], leaves[l].keys.len() as int, x));
+        }
+    }
+    assert forall|x: XOnlyPublicKey| !(exists|i: int| is_desc_xkey(keys, i, x)) implies (#[trigger] t3.contains_key(x) <==> t0.contains_key(x))
+        && (t0.contains_key(x) ==> t3[x].1 == t0[x].1 && forall|h: TapLeafHash| t3[x].0@.contains(h) <==> t0[x].0@.contains(h)) by {
+        assert(!is_new(es, x));
+        assert(t2.contains_key(x) <==> t1.contains_key(x));
+        if t0.contains_key(x) {
+            assert(t1.contains_key(x) && t1[x] == t0[x]);
+            assert(t2.contains_key(x));
+            assert(t2[x] == t1[x]);
+            assert(t3.contains_key(x));
+            assert(sort_dedup_post(t2[x].0@, t3[x].0@));
+            assert forall|h: TapLeafHash| t3[x].0@.contains(h) <==> t0[x].0@.contains(h) by {}
+        }
+    }
+}
+"""
+
+TR_SPEC2 = r"""
+spec fn leaf_keys_new(es: Seq<Ent>, leaves: Seq<LeafView>) -> bool {
+    forall|l: int, j: int| 0 <= l < leaves.len() && 0 <= j < leaves[l].keys.len() ==> is_new(es, xonly_of((#[trigger] leaves[l].keys[j]).inner))
+}
+proof fn lemma_leaf_keys_new(es: Seq<Ent>, xpub: Map<secp256k1::PublicKey, bip32::KeySource>, keys: Seq<DefiniteDescriptorKey>, leaves: Seq<LeafView>)
+    requires
+        xpub == record_all(Map::empty(), keys), leaf_keys_derived(leaves, keys),
+        forall|k: secp256k1::PublicKey| xpub.contains_key(k) ==> exists|j: int| 0 <= j < es.len() && (#[trigger] es[j]).0 == k,
+    ensures leaf_keys_new(es, leaves),
+{
+    lemma_record_all(Map::empty(), keys);
+    assert forall|l: int, j: int| 0 <= l < leaves.len() && 0 <= j < leaves[l].keys.len() implies is_new(es, xonly_of((#[trigger] leaves[l].keys[j]).inner)) by {
+        let i = choose|i: int| 0 <= i < keys.len() && (#[trigger] keys[i]).spec_derive() == leaves[l].keys[j];
+        let pk = keys[i].spec_derive().inner;
+        assert(xpub.contains_key(pk));
+        let e = choose|e: int| 0 <= e < es.len() && (#[trigger] es[e]).0 == pk;
+        assert(hit(ent_x(es), es.len() as int, e, xonly_of(pk)));
+    }
+}
+spec fn views_kept_except_tko_ts<F: PsbtFields>(a: F, b: F) -> bool {
+    b.v_rs() == a.v_rs() && b.v_ws() == a.v_ws() && b.v_bip32() == a.v_bip32() && b.v_prop() == a.v_prop() && b.v_unk() == a.v_unk()
+        && b.v_tik() == a.v_tik() && b.v_tt() == a.v_tt() && b.v_tmr() == a.v_tmr()
+}
+spec fn leaf_cbs(leaves: Seq<LeafView>) -> Seq<ControlBlock> { Seq::new(leaves.len(), |l: int| leaves[l].control_block) }
+spec fn leaf_scripts(leaves: Seq<LeafView>) -> Seq<(ScriptBuf, LeafVersion)> { Seq::new(leaves.len(), |l: int| (leaves[l].script, leaves[l].version)) }
+proof fn lemma_ts_final(ts0: Ts, ts: Ts, leaves: Seq<LeafView>)
+    requires ins_inv(ts0, ts, leaf_cbs(leaves), leaf_scripts(leaves), leaves.len() as int),
+    ensures ts_every_leaf(ts, leaves), ts_others_kept(ts0, ts, leaves),
+{
+    let ks = leaf_cbs(leaves);
+    let n = leaves.len() as int;
+    assert forall|l: int| 0 <= l < leaves.len() implies ts.contains_key((#[trigger] leaves[l]).control_block)
+        && exists|l2: int| leaf_at_cb(leaves, n, l2, leaves[l].control_block) && ts[leaves[l].control_block] == (leaves[l2].script, leaves[l2].version) by {
+        let cb = leaves[l].control_block;
+        assert(hit(ks, n, l, cb));
+        let l2 = choose|l2: int| hit(ks, n, l2, cb) && ts[cb] == leaf_scripts(leaves)[l2];
+        assert(leaf_at_cb(leaves, n, l2, cb) && ts[cb] == (leaves[l2].script, leaves[l2].version));
+    }
+    assert forall|cb: ControlBlock| !(exists|l: int| leaf_at_cb(leaves, n, l, cb)) implies (#[trigger] ts.contains_key(cb) <==> ts0.contains_key(cb)) && (ts0.contains_key(cb) ==> ts[cb] == ts0[cb]) by {
+        assert forall|l: int| !hit(ks, n, l, cb) by { if hit(ks, n, l, cb) { assert(leaf_at_cb(leaves, n, l, cb)); } }
+    }
+}
+"""
+
+
+def _after(text, m_end, ins):
+    return text[:m_end] + ins + text[m_end:]
+
+
+@rule("R8/R10/R14-taproot-loops")
+def tr_loops(text):
+    """The taproot branch: the three `for` loops over BTreeMap::into_iter / TrSpendInfo::leaves / Miniscript::iter_pk iterate the
+    vectors `btree_into_vec` / `tr_leaves_as_vec` / `pk_iter_as_vec` (R8; headers only, bodies verbatim) and carry invariants;
+    the `values_mut` loop is replaced by `btree_values_mut_sort_dedup` whose per-value step is the loop body, lifted and
+    verified separately (R14); everything else is ghost (R10) and mentions no local of the source text besides `item`,
+    `descriptor`, `tr_derived`, `spend_info` and `xpub_map`.  Returns None when a loop header is missing."""
+    FRAME = "views_kept_except_tko_ts(%s, *item)"
+    # the destructuring of the recorder: ghost snapshots
+    m = re.search(r"let KeySourceLookUp\(xpub_map, _\) = bip32_derivation;", text)
+    if not m:
+        return None
+    text = _after(text, m.end(), """
+        let ghost si_ = tr_derived.spec_spend_info();
+        let ghost xpub_ = xpub_map@;
+        let ghost keys_ = desc_keys(*descriptor);
+        let ghost leaves_ = si_.spec_leaves();
+        let ghost t0_ = item.v_tko();
+        let ghost ts0_ = item.v_ts();
+        proof { axiom_leaf_keys_derived(*descriptor); }""")
+    # loop 1: for (k, v) in xpub_map
+    m = re.search(r"for (\([^)]*\)) in xpub_map\s*\{", text)
+    if not m:
+        return None
+    close = match_close(text, m.end() - 1)
+    body = text[m.end():close]
+    text = text[:m.start()] + """let entries_ = btree_into_vec(xpub_map);
+        let ghost es_ = entries_@;
+        proof { lemma_leaf_keys_new(es_, xpub_, keys_, leaves_); }
+        let ghost snap1_ = *item;
+        for %s in it1_: entries_
+            invariant it1_.seq() == es_, l1_inv(t0_, item.v_tko(), es_, it1_.index() as int), %s, item.v_ts() == snap1_.v_ts(),
+        {
+            let ghost tb_ = item.v_tko();""" % (m.group(1), FRAME % "snap1_") + body + """    proof {
+                let x_ = xonly_of(es_[it1_.index() as int].0);
+                assert(item.v_tko() =~= tb_.insert(x_, item.v_tko()[x_]));
+                lemma_l1_step(t0_, tb_, es_, it1_.index() as int, item.v_tko()[x_]);
+            }
+        }
+        let ghost t1_ = item.v_tko();""" + text[close + 1:]
+    # loop 2: for leaf in spend_info.leaves()
+    m = re.search(r"for (\w+) in spend_info\.leaves\(\)\s*\{", text)
+    if not m:
+        return None
+    leaf = m.group(1)
+    text = text[:m.start()] + """let leaves_vec_ = tr_leaves_as_vec(spend_info.leaves());
+        let ghost snap2_ = *item;
+        for %s in it2_: leaves_vec_
+            invariant it2_.seq() == leaves_vec_@, l2_inv(t1_, item.v_tko(), es_, leaves_, it2_.index() as int, 0), ts_inv(ts0_, item.v_ts(), leaves_, it2_.index() as int), %s,
+        {
+            let ghost ln_ = it2_.index() as int;
+            proof { axiom_leaf_keys(leaves_vec_@[ln_]); assert(leaves_vec_@[ln_].view() == leaves_[ln_]); }
+            let ghost tsb_ = item.v_ts();""" % (leaf, FRAME % "snap2_") + text[m.end():]
+    # loop 3: for pk in leaf.miniscript().iter_pk()   (+ the script-map step before it, the leaf-done step after it)
+    m = re.search(r"for (\w+) in (%s\.miniscript\(\)\.iter_pk\(\))\s*\{" % re.escape(leaf), text)
+    if not m:
+        return None
+    close = match_close(text, m.end() - 1)
+    body = text[m.end():close]
+    head = """proof {
+                if tsb_ is Some {
+                    lemma_ins_step(ts0_->Some_0, tsb_->Some_0, leaf_cbs(leaves_), leaf_scripts(leaves_), ln_);
+                    assert(item.v_ts()->Some_0 =~= tsb_->Some_0.insert(leaf_cbs(leaves_)[ln_], leaf_scripts(leaves_)[ln_]));
+                }
+            }
+            let keys_vec_ = pk_iter_as_vec(%s);
+            for %s in it3_: keys_vec_
+                invariant it3_.seq() == leaves_[ln_].keys, l2_inv(t1_, item.v_tko(), es_, leaves_, ln_, it3_.index() as int), ts_inv(ts0_, item.v_ts(), leaves_, ln_ + 1), %s,
+            {
+                let ghost tb_ = item.v_tko();
+                let ghost xk_ = xonly_of(leaves_[ln_].keys[it3_.index() as int].inner);
+                let ghost h_ = leaves_[ln_].leaf_hash;
+                proof {
+                    assert(is_new(es_, xk_));
+                    let j_ = choose|j_: int| hit(ent_x(es_), es_.len() as int, j_, xk_);
+                    assert(t1_.contains_key(xk_));
+                }""" % (m.group(2), m.group(1), FRAME % "snap2_")
+    tail = """    proof {
+                    let v_ = item.v_tko()[xk_];
+                    let s0_ = tb_[xk_].0@;
+                    assert(item.v_tko() =~= tb_.insert(xk_, v_));
+                    assert(v_.1 == tb_[xk_].1);
+                    if v_.0@ =~= s0_ {
+                        assert(s0_.len() > 0 && s0_[s0_.len() - 1] == h_);
+                        assert(s0_.contains(h_));
+                    } else {
+                        assert(v_.0@ =~= s0_.push(h_));
+                        lemma_push_contains(s0_, h_);
+                    }
+                    lemma_l2_key_step(t1_, tb_, es_, leaves_, ln_, it3_.index() as int, v_);
+                }
+            """
+    text = text[:m.start()] + head + body + tail + "}\n            proof { lemma_l2_leaf_done(t1_, item.v_tko(), es_, leaves_, ln_); }" + text[close + 1:]
+    # loop 4: for (hashes, _) in item.tap_key_origins().values_mut()
+    m = re.search(r"for \((\w+), _\) in item\.tap_key_origins\(\)\.values_mut\(\)\s*\{", text)
+    if not m:
+        return None
+    close = match_close(text, m.end() - 1)
+    tr_loops.lifted = (m.group(1), text[m.end() - 1:close + 1])
+    text = text[:m.start()] + "let ghost t2_ = item.v_tko();\n        btree_values_mut_sort_dedup(item.tap_key_origins());\n        let ghost t3_ = item.v_tko();" + text[close + 1:]
+    # the end of the taproot branch
+    m = re.search(r"if let Descriptor::Tr\(ref tr_derived\) = &derived\s*\{", text)
+    if not m:
+        return None
+    close = match_close(text, m.end() - 1)
+    text = text[:close] + """    proof {
+            lemma_tr_final(t0_, t1_, t2_, t3_, es_, xpub_, keys_, leaves_);
+            if ts0_ is Some { lemma_ts_final(ts0_->Some_0, item.v_ts()->Some_0, leaves_); }
+        }
+    """ + text[close:]
+    return text
+
+
+def _tr_recorded():
+    SI = "(%s->Tr_0).spec_spend_info()" % D_
+    LV = "%s.spec_leaves()" % SI
+    T = "{F}.v_tko()"
+    return [
+        # BIP371 PSBT_{IN,OUT}_TAP_INTERNAL_KEY / PSBT_IN_TAP_MERKLE_ROOT / PSBT_OUT_TAP_TREE / PSBT_IN_TAP_LEAF_SCRIPT
+        ("tr.tap_internal_key_is_the_descriptors_internal_key", "{F}.v_tik() == Some(%s.spec_internal_key())" % SI),
+        ("tr.tap_merkle_root_is_the_spend_infos", "{F}.v_tmr() == (if {O}.v_tmr() is Some { Some(%s.spec_merkle_root()) } else { None::<Option<TapNodeHash>> })" % SI),
+        ("tr.tap_tree_is_the_spend_infos", "{F}.v_tt() == (if {O}.v_tt() is Some { Some(%s.spec_tap_tree()) } else { None::<Option<TapTree>> })" % SI),
+        ("tr.tap_scripts.every_leaf_under_its_control_block_with_script_and_version", "{O}.v_ts() is Some ==> {F}.v_ts() is Some && ts_every_leaf({F}.v_ts()->Some_0, %s)" % LV),
+        ("tr.tap_scripts.no_other_entry_added_or_changed", "({O}.v_ts() is Some <==> {F}.v_ts() is Some) && ({O}.v_ts() is Some ==> ts_others_kept({O}.v_ts()->Some_0, {F}.v_ts()->Some_0, %s))" % LV),
+        # PSBT_{IN,OUT}_TAP_BIP32_DERIVATION
+        ("tr.key_origins.every_key_recorded_under_its_x_only_key", "tko_every_key_recorded(%s, %s)" % (T, K_)),
+        ("tr.key_origins.value_is_fingerprint_and_full_path_of_a_key_with_that_x_only_key", "tko_origins(%s, %s)" % (T, K_)),
+        ("tr.key_origins.leaf_hashes_are_exactly_the_leaves_the_key_appears_in", "tko_leaf_hashes(%s, %s, %s)" % (T, K_, LV)),
+        ("tr.key_origins.key_outside_every_leaf_has_no_leaf_hashes", "tko_keys_outside_leaves_have_no_hashes(%s, %s, %s)" % (T, K_, LV)),
+        ("tr.key_origins.leaf_hashes_sorted_without_duplicates", "tko_sorted_without_duplicates(%s)" % T),
+        ("tr.key_origins.no_other_entry_added_or_changed", "tko_others_kept({O}.v_tko(), %s, %s)" % (T, K_)),
+        ("tr.scripts_bip32_and_unknown_fields_untouched", "{F}.v_rs() == {O}.v_rs() && {F}.v_ws() == {O}.v_ws() && {F}.v_bip32() == {O}.v_bip32() && {F}.v_prop() == {O}.v_prop() && {F}.v_unk() == {O}.v_unk()"),
+    ]
+
+
+def recorded_tr_spec():
+    body = "\n".join("    &&& (%s)" % _inst(t, "oi", "fi") for _, t in _tr_recorded())
+    return ("// the conjunction of the helper's taproot clauses (what its callers pass on)\n"
+            "spec fn recorded_tr<F: PsbtFields>(oi: F, fi: F, descriptor: &Descriptor<DefiniteDescriptorKey>) -> bool {\n%s\n}\n" % body)
+
+
+def tr_clauses():
+    OK = "r is Ok && r->Ok_0.1 && %s is Tr" % D_
+    return [C(tag, "%s ==> (%s)" % (OK, _inst(t, "(*old(item))", "(*final(item))"))) for tag, t in _tr_recorded()] + [
+        C("records_everything_taproot", "%s ==> recorded_tr(*old(item), *final(item), descriptor)" % OK, ())]
 
 
 DROPPED = [
     "c14_update: imported preludes (c16_wrappers.PRELUDE, the BTreeMap model of c14_psbt_satisfier.PRELUDE) are adapted textually: bitcoin::PublicKey gets its real fields {compressed, inner} and Copy / Eq, ScriptBuf gets Eq, crate::Error gets the ContextError variant, `mod bitcoin` re-exports the stand-ins",
     "c14_update: `&Script` parameters are `&ScriptBuf`; `*script_pubkey` (ScriptBuf deref'd to the unsized Script for `==` / `!=`) is written `script_pubkey` (R7: both compare the script bytes)",
     "c14_update: get_descriptor: the two nested `for` loops building the hash160 -> key map over `bip32_derivation.keys()` of all inputs are index loops over `btree_keys_as_vec` (R8, bodies verbatim); only the invariant needed downstream (every entry's key hashes to its index) is carried, not which keys are collected",
-    "c14_update: `.find(|&(&pk, _sig)| { .. })` -> `.find(|kv: &(&PublicKey, &Signature)| { let pk = *kv.0; .. })` with a ghost contract (R16 / R10); `get_scriptpubkey`'s `.map(|utxo| ..)` closure gets a parameter type and an `ensures` (R10)",
+    "c14_update: get_descriptor: `.find(|&(&pk, _sig)| { .. })` -> `.find(|kv: &(&PublicKey, &Signature)| { let pk = *kv.0; .. })` with a ghost contract (R16 / R10); `X?` with an error conversion (crate::Error -> InputError) -> `q_err(X)?`, q_err being the verified desugaring `Err(e) => Err(From::from(e))` (R17: this Verus leaves the converted error unconstrained); `get_scriptpubkey`'s `.map(|utxo| ..)` closure gets a parameter type and an `ensures` (R10)",
+    "c14_update: construct_tap_witness (key-path / script-path witness assembly for p2tr inputs; satisfier, `continue`-heavy loop over tap_scripts, Option<usize> ordering) is NOT verified (R9: not extracted at all); finalize_input_helper, interpreter_check, prevouts are out of this unit (c14_finalize)",
+    "c14_update: trait impls are emitted as inherent methods where a precondition-free inherent form suffices (`Translator<DefiniteDescriptorKey> for KeySourceLookUp::pk` with Self::TargetPk / Self::Error written out, `PsbtExt for Psbt::update_{input,output}_with_descriptor`, `Psbt{Input,Output}Ext::update_with_descriptor_unchecked`); `impl PsbtFields for psbt::Input / Output` stay trait impls of the Verus rendering of the trait; the trait's default bodies (`tap_tree`, `tap_scripts`, `tap_merkle_root` -> None) are emitted into the impl that inherits them",
+    "c14_update: `Descriptor::translate_pk` is consumed at T = KeySourceLookUp through a contract (structure rebuilt, `pk` called once per key in order: C20), DefiniteDescriptorKey's derivation / fingerprint / path are uninterpreted (c16_keys); `.map_err(UtxoUpdateError::DerivationError)` is eta-expanded (R12')",
+    "c14_update: update_item_with_descriptor_helper, taproot branch: `for (k, v) in xpub_map`, `for leaf in spend_info.leaves()`, `for pk in leaf.miniscript().iter_pk()` iterate the vectors btree_into_vec / tr_leaves_as_vec / pk_iter_as_vec (R8, headers only); `for (hashes, _) in item.tap_key_origins().values_mut() { hashes.sort(); hashes.dedup(); }` -> `btree_values_mut_sort_dedup(..)` with the body lifted into `sort_dedup_step` (`.sort()` / `.dedup()` -> vec_sort / vec_dedup) and verified against the per-value relation of the stub (R14 / R16); invariants and lemma calls are ghost (R10); `#[verifier::loop_isolation(false)]`",
+    "c14_update: Plan::update_psbt_input: the taproot branch (local enum / struct definitions, `fold` with a state-capturing closure, BTreeMap entry API) is replaced by a stub with an arbitrary effect on the input (R9: nothing claimed for tr plans); the two `for` loops of the other branch keep their text and get ghost iterator names and invariants (R10); `Placeholder`'s associated hash types `Pk::Sha256` .. are written as the concrete hash types of DefiniteDescriptorKey (R7)",
+    "c14_update: NOT decided here: that the recorded values are the right BYTES (hash160 / sha256 / taproot hashes, BIP32 derivation, script encoding are uninterpreted; C04 / C15 / C16 units), fields of psbt::Input / Output not reachable through PsbtFields are framed only for update_{input,output}_with_descriptor at the granularity `other inputs / outputs / globals unchanged`",
 ]
 
 
@@ -458,34 +1540,54 @@ def build(repo):
                    (BARE, "struct:Pkh"), (DMOD, "enum:Descriptor")):
         vf.item(rel, a, rewrites=[STRIP_DERIVE])
     vf.raw(W.ORACLE)
-    vf.raw(MS_EXT, keep_vis=True)
-    vf.item(PMOD, "enum:InputError", rewrites=[STRIP_ATTRS, SUPER_ERR])
-    vf.raw(INPUT_ERR_GLUE)
+    vf.raw(MS_EXT)
+    item_pub(vf, PMOD, "enum:InputError", rewrites=[STRIP_ATTRS, SUPER_ERR])
+    vf.raw(INPUT_ERR_GLUE, keep_vis=True)
     with vf.block("impl From<Error> for InputError"):
-        vf.fn(PMOD, "impl:From<super::Error> for InputError/fn:from", qual="InputError as From<Error>", props=C11, rewrites=[SUPER_ERR])
+        vf.fn(PMOD, from_impl_fn(repo, PMOD, r"super::Error", "InputError"), qual="InputError::From_Error", props=C11, rewrites=[SUPER_ERR])
     with vf.block("impl From<FromSliceError> for InputError"):
-        vf.fn(PMOD, "impl:From<bitcoin::key::FromSliceError> for InputError/fn:from", qual="InputError as From<FromSliceError>", props=C11,
+        vf.fn(PMOD, from_impl_fn(repo, PMOD, r"bitcoin::key::FromSliceError", "InputError"), qual="InputError::From_FromSliceError", props=C11,
               rewrites=[lit("R7", "bitcoin::key::FromSliceError", "FromSliceError")])
     vf.raw(ORACLE_A)
+    vf.spec_obligation("q_err", Q_ERR, C11)
+    vf.trust("imported prelude of units/c16_wrappers.py: ScriptBuf / Address / Builder / PushBytes / CompressedPublicKey / PublicKey / Network / Error / Miniscript / Tr stand-ins",
+             "bitcoin-crate and out-of-unit types as opaque values; each encoder is an uninterpreted function (P2SH, P2WSH, P2WPKH, P2PKH, enc); "
+             "CompressedPublicKey::try_from succeeds iff the key is compressed; to_p2sh / to_p2wsh / Address::p2* apply the named encoder")
+    vf.trust("imported BTreeMap model of units/c14_psbt_satisfier.py (uninterpreted Map view; get / iter / Iter::find, Option::copied) + new / insert / keys / append, btree_keys_as_vec",
+             "std semantics: find returns an entry satisfying the predicate or None if none does; insert overwrites; append moves every entry of `other` "
+             "into `self`, the entries of `other` winning, and leaves `other` empty; keys() yields exactly the keys")
+    vf.trust("opaque dependency values (secp256k1 keys, Txid, Amount, Witness, taproot / bip32 / hash types) incl. PartialEqSpecImpl glue and ScriptBuf::clone",
+             "only moved around and compared; derived PartialEq is structural equality; Clone returns an equal value")
+    vf.trust("ScriptBuf::is_p2pk / is_p2pkh / is_p2wpkh / is_p2wsh / is_p2sh / is_p2tr (external_body, uninterpreted predicates), axiom_output_types_exclusive, len / to_bytes",
+             "bitcoin::Script's template tests are uninterpreted predicates of the script; the six templates are pairwise exclusive (length and first opcode differ); "
+             "a P2PK script is 35 or 67 bytes `<key> OP_CHECKSIG`")
+    vf.trust("PublicKey::{new, pubkey_hash, from_slice}, PubkeyHash::to_raw_hash, impl ToPublicKey for PublicKey",
+             "PublicKey::new = {compressed: true, inner} (bitcoin crate source); HASH160 is uninterpreted; from_slice(b) re-serialises to b; a bitcoin::PublicKey is its own public key")
+    vf.trust("Miniscript::decode_consensus (external_body: Ok(ms) ==> ms.encode() == script), substitute_raw_pkh (encoding unchanged when every map entry's key hashes to its index), Descriptor::new_pk",
+             "parse / encode are uninterpreted; the round trip decode-then-encode is property C04's subject (units c04_decode / c04_encode); "
+             "expr_raw_pkh(h) and pk_h(K), HASH160(K) = h, have the same script template; c:pk_k(K) is `<K> OP_CHECKSIG`")
+    vf.trust("ScriptContext checks of the constructors (Segwitv0 / Legacy / BareCtx ::top_level_checks, check_pk) as arbitrary-result stubs; Segwitv0::check_pk Ok ==> key compressed",
+             "nothing is assumed about acceptance; the compressed-key rule of segwit v0 is unit c12_validation's subject; From<ScriptContextError> for Error as in src/lib.rs")
+    vf.trust("FromSpecImpl glue for InputError / Error", "ties vstd's `?` / From::from specification to the extracted `from` bodies, which are verified against it")
 
     # ---- descriptor constructors the inference goes through (real text) ---------------------------------------------------
     FP = ("C14", "C11")
     with vf.block("impl<Pk: MiniscriptKey + ToPublicKey> Wsh<Pk>"):
-        vf.fn(SEG, "impl:Wsh<Pk>#0/fn:new", qual="Wsh", props=FP, contract=Contract(ensures=[C("wraps_the_miniscript", "r is Ok ==> r->Ok_0.ms == ms")]))
+        vf.fn(SEG, impl_with_fn(repo, SEG, "Wsh<Pk>", "new"), qual="Wsh", props=FP, contract=Contract(ensures=[C("wraps_the_miniscript", "r is Ok ==> r->Ok_0.ms == ms")]))
     with vf.block("impl<Pk: MiniscriptKey + ToPublicKey> Wpkh<Pk>"):
-        vf.fn(SEG, "impl:Wpkh<Pk>#0/fn:new", qual="Wpkh", props=FP, contract=Contract(ensures=[
+        vf.fn(SEG, impl_with_fn(repo, SEG, "Wpkh<Pk>", "new"), qual="Wpkh", props=FP, contract=Contract(ensures=[
             C("wraps_the_key", "r is Ok ==> r->Ok_0.pk == pk"), C("only_compressed_keys", "r is Ok ==> pk.spec_pk().compressed")]))
     with vf.block("impl<Pk: MiniscriptKey + ToPublicKey> Bare<Pk>"):
-        vf.fn(BARE, "impl:Bare<Pk>#0/fn:new", qual="Bare", props=FP, contract=Contract(ensures=[C("wraps_the_miniscript", "r is Ok ==> r->Ok_0.ms == ms")]))
+        vf.fn(BARE, impl_with_fn(repo, BARE, "Bare<Pk>", "new"), qual="Bare", props=FP, contract=Contract(ensures=[C("wraps_the_miniscript", "r is Ok ==> r->Ok_0.ms == ms")]))
     with vf.block("impl<Pk: MiniscriptKey + ToPublicKey> Pkh<Pk>"):
-        vf.fn(BARE, "impl:Pkh<Pk>#0/fn:new", qual="Pkh", props=FP, contract=Contract(ensures=[C("wraps_the_key", "r is Ok ==> r->Ok_0.pk == pk")]))
+        vf.fn(BARE, impl_with_fn(repo, BARE, "Pkh<Pk>", "new"), qual="Pkh", props=FP, contract=Contract(ensures=[C("wraps_the_key", "r is Ok ==> r->Ok_0.pk == pk")]))
     with vf.block("impl<Pk: MiniscriptKey + ToPublicKey> Sh<Pk>"):
-        vf.fn(SH, "impl:Sh<Pk>#0/fn:new", qual="Sh", props=FP, contract=Contract(ensures=[C("is_sh_ms", "r is Ok ==> r->Ok_0.inner == ShInner::<Pk>::Ms(ms)")]))
-        vf.fn(SH, "impl:Sh<Pk>#0/fn:new_wsh", qual="Sh", props=FP, contract=Contract(ensures=[C("is_sh_wsh", "r is Ok ==> r->Ok_0.inner == ShInner::<Pk>::Wsh(Wsh { ms })")]))
-        vf.fn(SH, "impl:Sh<Pk>#0/fn:new_wpkh", qual="Sh", props=FP, contract=Contract(ensures=[
+        vf.fn(SH, impl_with_fn(repo, SH, "Sh<Pk>", "new"), qual="Sh", props=FP, contract=Contract(ensures=[C("is_sh_ms", "r is Ok ==> r->Ok_0.inner == ShInner::<Pk>::Ms(ms)")]))
+        vf.fn(SH, impl_with_fn(repo, SH, "Sh<Pk>", "new_wsh"), qual="Sh", props=FP, contract=Contract(ensures=[C("is_sh_wsh", "r is Ok ==> r->Ok_0.inner == ShInner::<Pk>::Wsh(Wsh { ms })")]))
+        vf.fn(SH, impl_with_fn(repo, SH, "Sh<Pk>", "new_wpkh"), qual="Sh", props=FP, contract=Contract(ensures=[
             C("is_sh_wpkh", "r is Ok ==> r->Ok_0.inner == ShInner::<Pk>::Wpkh(Wpkh { pk })"), C("only_compressed_keys", "r is Ok ==> pk.spec_pk().compressed")]))
     with vf.block("impl<Pk: MiniscriptKey + ToPublicKey> Descriptor<Pk>"):
-        I = "impl:Descriptor<Pk>#0/fn:"
+        I = impl_with_fn(repo, DMOD, "Descriptor<Pk>", "new_pkh").rsplit("/", 1)[0] + "/fn:"
         vf.fn(DMOD, I + "new_pkh", qual="Descriptor", props=FP, contract=Contract(ensures=[C("is_pkh", "r is Ok ==> r->Ok_0 == Descriptor::<Pk>::Pkh(Pkh { pk })")]))
         vf.fn(DMOD, I + "new_wpkh", qual="Descriptor", props=FP, contract=Contract(ensures=[
             C("is_wpkh", "r is Ok ==> r->Ok_0 == Descriptor::<Pk>::Wpkh(Wpkh { pk }) && pk.spec_pk().compressed")]))
@@ -502,11 +1604,174 @@ def build(repo):
         lit("R10", ".map(|utxo| utxo.script_pubkey.clone())", ".map(|utxo: &TxOut| -> (s: ScriptBuf) ensures s == utxo.script_pubkey { utxo.script_pubkey.clone() })")])
     DEREF = sub("R7-script-deref", r"\*script_pubkey\b", "script_pubkey")
     vf.fn(FIN, "fn:get_descriptor", props=PROPS, contract=get_descriptor_contract(), rewrites=[
-        key_map_loops, DEREF,
+        key_map_loops, DEREF, q_conv,
         find_closure("b == (script_pubkey == P2PKH(*kv.0))", "p2pkh.candidate_key_hashes_to_the_script_pubkey"),
         find_closure("b == (kv.0.compressed && script_pubkey == P2WPKH(*kv.0))", "p2wpkh.candidate_key_is_compressed_and_hashes_to_the_script_pubkey"),
         find_closure("b == (kv.0.compressed && *redeem_script == P2WPKH(*kv.0))", "sh_wpkh.candidate_key_is_compressed_and_hashes_to_the_redeem_script"),
         lit("R10", "let inp = &psbt.inputs[index];", "let inp = &psbt.inputs[index];\n    proof { axiom_output_types_exclusive(script_pubkey); }"),
     ])
     PS.register_closure_clauses(vf, "get_descriptor", lambda tag: C14)
+
+    # ---- B. field population ------------------------------------------------------------------------------------------------
+    vf.raw(KEYS_B, keep_vis=True)
+    vf.raw("use std::sync::Arc;", keep_vis=True)
+    vf.raw(TR_PRELUDE, keep_vis=True)
+    vf.trust("DefiniteDescriptorKey (opaque; derive_public_key / master_fingerprint / full_derivation_path(s) / to_public_key uninterpreted), Infallible, NonDefiniteKeyError, TranslateErr",
+             "which public key, fingerprint and path a definite key stands for is decided by unit c16_keys (the_public_key, master_fingerprint, full_derivation_path; "
+             "a definite key is single-path, so full_derivation_path is Some); ToPublicKey::to_public_key of a definite key IS derive_public_key (src/descriptor/key.rs)")
+    vf.item(PMOD, "struct:KeySourceLookUp")
+    # the real trait, checked to declare exactly the accessors the Verus rendering specifies
+    treg = repo.at(PMOD, "trait:PsbtFields")
+    declared = re.findall(r"\bfn\s+(\w+)\s*\(", strip_docs(treg.text))
+    if sorted(declared) != sorted(f[0] for f in FIELDS):
+        raise Undecided("trait PsbtFields declares %s; the unit's rendering knows %s" % (sorted(declared), sorted(f[0] for f in FIELDS)))
+    vf.raw(psbt_fields_trait(), keep_vis=True)
+    vf.trust("trait PsbtFields rendered with one uninterpreted view per field and an accessor contract (own field handed out, every other view unchanged; optional accessor None iff no such field)",
+             "the trait has no contract in the source; the real accessor bodies of `impl PsbtFields for psbt::Input / psbt::Output` (and the trait's default bodies, "
+             "emitted into the impl that relies on them) are verified against it")
+    i_ = TRANSLATE.index("proof fn lemma_record_all")
+    vf.raw(TRANSLATE[:i_])
+    vf.spec_obligation("oracle::bip32_bookkeeping_lemmas", TRANSLATE[i_:], C14)
+    vf.trust("Descriptor::<DefiniteDescriptorKey>::translate_pk at T = KeySourceLookUp (external_body): Ok, result = derived_desc(self), recorder state = record_all(.., desc_keys(self)), wpkh keys compressed",
+             "translate_pk rebuilds the same descriptor structure calling t.pk once per key in order (property C20, units c20_translate / c20_iters); KeySourceLookUp::pk is verified below "
+             "against the step folded in record_all; the rebuilt descriptor passes the constructors' context checks again (Wpkh::new: compressed), so no OuterError arises")
+    vf.raw(ORACLE_B % dict(desc_redeem=w_spec_fn("desc_redeem"), desc_witness_script=w_spec_fn("desc_witness_script")))
+    vf.raw(recorded_spec())
+    vf.trust("taproot stand-ins: Tap, xonly_of (uninterpreted), to_x_only_pubkey of secp256k1::PublicKey / bitcoin::PublicKey, ControlBlock::clone, ScriptBuf::from(&Script), "
+             "TrSpendInfo / TrSpendInfoIter / TrSpendInfoIterItem / PkIter with uninterpreted views (internal key, merkle root, tap tree, leaves = script / version / leaf hash / control block / keys), Tr::spend_info",
+             "the spend data of a tr() descriptor is an uninterpreted function of the descriptor: which hash / control block a leaf has is property C15's subject; "
+             "the x-only key of a bitcoin::PublicKey depends on the curve point only (ToPublicKey::to_x_only_pubkey default body, src/lib.rs)")
+    vf.trust("tr_leaves_as_vec / pk_iter_as_vec / btree_into_vec (external_body): the element sequences of TrSpendInfo::leaves(), Miniscript::iter_pk(), BTreeMap::into_iter()",
+             "R8: the `for` loops of the taproot branch iterate these vectors; leaves come left to right, iter_pk yields the miniscript's keys, into_iter yields every entry once")
+    vf.trust("axiom_leaf_keys, axiom_leaf_keys_derived (external_body proof fns)",
+             "the keys iter_pk yields for a leaf's miniscript are that leaf's keys; every key in a leaf of the DERIVED descriptor is the derivation of a key of the descriptor "
+             "(translate_pk maps key by key: property C20)")
+    vf.trust("vec_sort / vec_dedup on Vec<TapLeafHash> (external_body), btree_values_mut_sort_dedup (external_body)",
+             "std: sort yields an ascending permutation, dedup removes consecutive repeats (none left on a sorted vector); R14: `for (v, _) in map.values_mut() { BODY }` applies BODY to every "
+             "value once -- BODY is lifted verbatim into `sort_dedup_step` and verified against the relation the stub states per value")
+    vf.spec_obligation("oracle::taproot_bookkeeping_lemmas", TR_SPEC + TR_SPEC2, C14)
+    vf.raw(recorded_tr_spec())
+    vf.trust("update_taproot_fields_excluded (external_body, no contract)", "R9: stands for the taproot branch of update_item_with_descriptor_helper; may change the item arbitrarily")
+
+    for kind in ("Input", "Output"):
+        impl = "impl:PsbtFields for psbt::%s" % kind
+        with vf.block("impl PsbtFields for %s" % kind):
+            vf.raw(fields_views(kind), keep_vis=True)
+            for m, v, vt, rt, opt in FIELDS:
+                attrs_off = sub("R1-attrs", r"#\[allow\(dead_code\)\]\s*", "", required=False)
+                try:
+                    repo.at(PMOD, "%s/fn:%s" % (impl, m))
+                    anchor = "%s/fn:%s" % (impl, m)
+                except Exception:
+                    if not opt:
+                        raise
+                    anchor = "trait:PsbtFields/fn:%s" % m          # the trait's default body, inherited by this impl
+                vf.fn(PMOD, anchor, qual="PsbtFields_for_%s" % kind, props=PROPS, rewrites=[attrs_off])
+
+    with vf.block("impl KeySourceLookUp"):
+        vf.fn(PMOD, "impl:Translator<DefiniteDescriptorKey> for KeySourceLookUp/fn:pk", qual="KeySourceLookUp", props=PROPS,
+              rewrites=[lit("R7", "Self::TargetPk", "bitcoin::PublicKey"), lit("R7", "Self::Error", "Infallible")],
+              contract=Contract(ensures=[
+                  C("returns_the_derived_key", "r is Ok && r->Ok_0 == xpk.spec_derive()"),
+                  # BIP174: the KEY of a bip32_derivation entry is the public key itself (as it appears in the script), the VALUE its origin
+                  C("records_the_derived_key_with_fingerprint_and_full_path", "final(self).0@ == old(self).0@.insert(xpk.spec_derive().inner, (xpk.spec_fingerprint(), xpk.spec_full_path()))"),
+              ]))
+
+    # the script wrappers the updater calls (real text, contracts as in unit c16_wrappers)
+    WP = ("C14", "C16")
+    with vf.block(W.TOPK % "Wsh"):
+        I = "impl:Wsh<Pk>#1/fn:"
+        vf.fn(SEG, I + "inner_script", qual="Wsh", props=WP, contract=Contract(ensures=[C("is_witness_script", "r == self.ms.enc()", WP)]))
+        vf.fn(SEG, I + "script_pubkey", qual="Wsh", props=WP, contract=Contract(ensures=[C("is_p2wsh_of_witness_script", "r == wsh_spk(*self)", WP)]))
+    with vf.block(W.TOPK % "Wpkh"):
+        I = "impl:Wpkh<Pk>#1/fn:"
+        vf.fn(SEG, I + "script_pubkey", qual="Wpkh", props=WP, contract=Contract(requires=["wpkh_wf(*self)"], ensures=[C("is_p2wpkh", "r == wpkh_spk(*self)", WP)]))
+    with vf.block(W.TOPK % "Bare"):
+        vf.fn(BARE, "impl:Bare<Pk>#1/fn:script_pubkey", qual="Bare", props=WP, contract=Contract(ensures=[C("is_the_script", "r == self.ms.enc()", WP)]))
+    with vf.block(W.TOPK % "Pkh"):
+        vf.fn(BARE, "impl:Pkh<Pk>#1/fn:address", qual="Pkh", props=WP, contract=Contract(ensures=[C("address_agrees_with_spk", "r.spk() == pkh_spk(*self) && r.net() == network", WP)]))
+        vf.fn(BARE, "impl:Pkh<Pk>#1/fn:script_pubkey", qual="Pkh", props=WP, contract=Contract(ensures=[C("is_p2pkh", "r == P2PKH(self.pk.spec_pk())", WP)]))
+    with vf.block(W.TOPK % "Sh"):
+        I = "impl:Sh<Pk>#1/fn:"
+        kw = ["sh_keys_wf(*self)"]
+        vf.fn(SH, I + "script_pubkey", qual="Sh", props=WP, contract=Contract(requires=kw, ensures=[C("bip16_p2sh_of_redeem", "r == P2SH(sh_redeem(*self))", WP)]))
+        vf.fn(SH, I + "inner_script", qual="Sh", props=WP, contract=Contract(requires=kw, ensures=[C("explicit_script", "r == sh_explicit(*self)", WP)]))
+    with vf.block("impl<Pk: MiniscriptKey> Sh<Pk>"):
+        vf.fn(SH, "impl:Sh<Pk>#0/fn:as_inner", qual="Sh", props=C11, contract=Contract(ensures=[C("inner", "*r == self.inner", ())]))
+    with vf.block(W.TOPK % "Descriptor"):
+        vf.fn(DMOD, "impl:Descriptor<Pk>#1/fn:script_pubkey", qual="Descriptor", props=WP, contract=Contract(requires=["desc_keys_wf(*self)"], ensures=[C("spk_of_variant", "r == desc_spk(*self)", WP)]))
+
+    vf.fn(PMOD, "fn:update_item_with_descriptor_helper", props=PROPS, contract=helper_contract(), attrs="#[verifier::loop_isolation(false)]", rewrites=[
+        SCRIPT_REF, tr_loops, sub("R7", r"\bdescriptor::ShInner\b", "ShInner"),
+        lit("R10", "item.bip32_derivation().append(&mut bip32_derivation.0);",
+            "proof { lemma_union_records(item.v_bip32(), desc_keys(*descriptor)); }\n        item.bip32_derivation().append(&mut bip32_derivation.0);"),
+    ])
+
+    HELPER = "update_item_with_descriptor_helper"
+    for pat, tag in ((r"lemma_l1_step\(", "tr.key_origins.one_entry_per_key_with_no_leaf_hashes_and_its_origin"),
+                     (r"assert\(item\.v_tko\(\) =~= tb_\.insert\(x_, ", "tr.key_origins.one_entry_per_key_with_no_leaf_hashes_and_its_origin"),
+                     (r"assert\(item\.v_tko\(\) =~= tb_\.insert\(xk_, v_\)\)", "tr.key_origins.only_the_entry_of_the_leaf_key_is_touched"),
+                     (r"assert\(v_\.1 == tb_\[xk_\]\.1\)", "tr.key_origins.origin_of_the_leaf_key_kept"),
+                     (r"assert\(s0_\.len\(\) > 0 && ", "tr.key_origins.leaf_hash_added_to_every_key_of_the_leaf"),
+                     (r"assert\(v_\.0@ =~= s0_\.push\(h_\)\)", "tr.key_origins.leaf_hash_added_to_every_key_of_the_leaf"),
+                     (r"lemma_l2_key_step\(", "tr.key_origins.leaf_hash_added_to_every_key_of_the_leaf"),
+                     (r"lemma_ins_step\(ts0_", "tr.tap_scripts.leaf_recorded_under_its_control_block"),
+                     (r"assert\(item\.v_ts\(\)->Some_0 =~= ", "tr.tap_scripts.leaf_recorded_under_its_control_block"),
+                     (r"lemma_tr_final\(", "tr.key_origins.loops_establish_the_bip371_statements")):
+        PS.register_call_site(vf, HELPER, pat, Clause(tag, C14, "loop step of the taproot branch (see the invariants l1_inv / l2_inv / ts_inv)"))
+    # the body of `for (hashes, _) in item.tap_key_origins().values_mut() { .. }`, lifted (R14 / R16)
+    reg_h = repo.at(PMOD, "fn:update_item_with_descriptor_helper")
+    var, lifted = tr_loops.lifted
+    lifted = re.sub(r"\b%s\.sort\(\)" % var, "vec_sort(%s)" % var, lifted)
+    lifted = re.sub(r"\b%s\.dedup\(\)" % var, "vec_dedup(%s)" % var, lifted)
+    vf.fn_text("update_item_with_descriptor_helper__values_mut_step", "fn sort_dedup_step(%s: &mut Vec<TapLeafHash>) %s" % (var, lifted),
+               Contract(ensures=[C("tr.key_origins.leaf_hashes_end_up_sorted_without_duplicates_same_set", "sort_dedup_post(old(%s)@, final(%s)@)" % (var, var))]),
+               PROPS, file=PMOD, lines=reg_h.lines(), anchor="fn:update_item_with_descriptor_helper/for .. in values_mut() body")
+
+    # ---- the unchecked per-item entry points ------------------------------------------------------------------------------------
+    for kind in ("Input", "Output"):
+        with vf.block("impl %s" % kind):
+            vf.fn(PMOD, "impl:Psbt%sExt for psbt::%s/fn:update_with_descriptor_unchecked" % (kind, kind), qual=kind, props=PROPS, contract=Contract(ensures=[
+                C("never_fails", "r is Ok", ("C14", "C11")),
+                C("returns_the_derived_descriptor", "r is Ok ==> r->Ok_0 == %s" % D_),
+                C("records_scripts_and_key_origins", "!(%s is Tr) ==> recorded(*old(self), *final(self), descriptor)" % D_),
+                C("records_taproot_data", "%s is Tr ==> recorded_tr(*old(self), *final(self), descriptor)" % D_)]))
+
+    # ---- descriptor type (what `witness_utxo alone` is judged by) ------------------------------------------------------------------
+    vf.raw("pub enum WitnessVersion { V0, V1, V2 }", keep_vis=True)
+    vf.item(DMOD, "enum:DescriptorType", rewrites=[STRIP_DERIVE])
+    vf.raw(UTXO_ORACLE)
+    with vf.block("impl DescriptorType"):
+        vf.fn(DMOD, "impl:DescriptorType/fn:segwit_version", qual="DescriptorType", props=PROPS, contract=Contract(ensures=[
+            C("bip141_segwit_v0_native_or_nested", "r == Some(WitnessVersion::V0) <==> (*self is Wpkh || *self is ShWpkh || *self is Wsh || *self is ShWsh)"),
+            C("bip341_segwit_v1", "r == Some(WitnessVersion::V1) <==> *self is Tr"),
+            C("legacy_has_none", "r is None <==> (*self is Bare || *self is Pkh || *self is Sh)")]))
+    with vf.block("impl<Pk: MiniscriptKey> Descriptor<Pk>"):
+        vf.fn(DMOD, impl_with_fn(repo, DMOD, "Descriptor<Pk>", "desc_type"), qual="Descriptor", props=PROPS, contract=Contract(ensures=[
+            C("names_the_output_type", "r == desc_type_of(*self)")]))
+
+    # ---- PsbtExt::{update_input_with_descriptor, update_output_with_descriptor} (emitted as inherent methods) ------------------------
+    ETA_I = lit("R12'", ".map_err(UtxoUpdateError::DerivationError)", ".map_err(|e: NonDefiniteKeyError| -> (o: UtxoUpdateError) ensures o == UtxoUpdateError::DerivationError(e) { UtxoUpdateError::DerivationError(e) })")
+    ETA_O = lit("R12'", ".map_err(OutputUpdateError::DerivationError)", ".map_err(|e: NonDefiniteKeyError| -> (o: OutputUpdateError) ensures o == OutputUpdateError::DerivationError(e) { OutputUpdateError::DerivationError(e) })")
+    item_pub(vf, PMOD, "enum:UtxoUpdateError", rewrites=[STRIP_ATTRS])
+    item_pub(vf, PMOD, "enum:OutputUpdateError", rewrites=[STRIP_ATTRS])
+    with vf.block("impl Psbt"):
+        vf.fn(PMOD, "impl:PsbtExt for Psbt/fn:update_input_with_descriptor", qual="Psbt", props=PROPS, rewrites=[ETA_I], contract=update_input_contract())
+        vf.fn(PMOD, "impl:PsbtExt for Psbt/fn:update_output_with_descriptor", qual="Psbt", props=PROPS, rewrites=[ETA_O], contract=update_output_contract())
+
+    # ---- Plan::update_psbt_input (src/plan.rs) --------------------------------------------------------------------------------------
+    vf.raw("pub mod relative { use vstd::prelude::*; verus!{ pub struct LockTime { pub opaque: u32 } } }", keep_vis=True)
+    vf.item(SATMOD, "enum:SchnorrSigType", rewrites=[STRIP_DERIVE])
+    vf.item(SATMOD, "enum:Placeholder", rewrites=[STRIP_DERIVE, sub("R7-assoc-hash-types", r"\bPk::(Sha256|Hash256|Ripemd160|Hash160)\b", lambda m: {
+        "Sha256": "sha256::Hash", "Hash256": "sha256d::Hash", "Ripemd160": "ripemd160::Hash", "Hash160": "hash160::Hash"}[m.group(1)])])
+    vf.item(PLAN, "struct:Plan", rewrites=[STRIP_DERIVE])
+    in_fields = re.findall(r"(?m)^\s*pub\s+(\w+)\s*:", strip_docs(dep.at("src/psbt/map/input.rs", "struct:Input").text))
+    maps = [f for f in in_fields if re.search(r"pub\s+%s\s*:\s*BTreeMap" % f, dep.at("src/psbt/map/input.rs", "struct:Input").text)]
+    frame = "\n".join("    &&& a.%s%s == b.%s%s" % (f, "@" if f in maps else "", f, "@" if f in maps else "")
+                      for f in in_fields if f not in ("redeem_script", "witness_script", "bip32_derivation"))
+    vf.raw(PLAN_SPEC % dict(frame=frame))
+    vf.trust("plan_update_taproot_excluded (external_body, no contract)", "R9: stands for the taproot branch of Plan::update_psbt_input; may change the input arbitrarily")
+    with vf.block("impl Plan<DefiniteDescriptorKey>"):
+        vf.fn(PLAN, impl_with_fn(repo, PLAN, "Plan<DefiniteDescriptorKey>", "update_psbt_input"), qual="Plan", props=PROPS, contract=plan_contract(), rewrites=[
+            cut_plan_tr_branch, plan_loops, sub("R7", r"\bdescriptor::ShInner\b", "ShInner")])
     return vf
